@@ -1,6 +1,7 @@
 /-
-  SimVerif.Lemmas.AcceptInv — the invariant of the open handshake system (SimVerif/AcceptSys.lean)
-  and its preservation by every label. Stated on views (Lemmas/TcpView.lean).
+  SimVerif.Lemmas.AcceptInv — the invariant of the open handshake system (SimVerif/AcceptSys.lean:
+  any number of acceptors, listening epochs, user cancel / close) and the generic update
+  lemmas by which every label preserves it. Stated on views (Lemmas/TcpView.lean).
 -/
 import SimVerif.Lemmas.TcpView
 
@@ -8,75 +9,131 @@ namespace SimVerif
 namespace Hs
 
 /-- the route of a channel towards side 1, without its last hop (a forwarder) -/
-def route1 (cfg : NetCfg) (aep : Ep) (cv : ChanV) : List String :=
-  cfg.outRoute cv.ep0.addr ++ cfg.netRoute cv.ep0.addr aep.addr ++ cfg.inRoute aep.addr
+def route1 (cfg : NetCfg) (cv : ChanV) : List String :=
+  cfg.outRoute cv.ep0.addr ++ cfg.netRoute cv.ep0.addr cv.ep1.addr ++ cfg.inRoute cv.ep1.addr
 
 /-- … towards side 0 -/
-def route0 (cfg : NetCfg) (aep : Ep) (cv : ChanV) : List String :=
-  cfg.outRoute aep.addr ++ cfg.netRoute cv.ep0.addr aep.addr ++ cfg.inRoute cv.ep0.addr
+def route0 (cfg : NetCfg) (cv : ChanV) : List String :=
+  cfg.outRoute cv.ep1.addr ++ cfg.netRoute cv.ep0.addr cv.ep1.addr ++ cfg.inRoute cv.ep0.addr
 
-structure HInv (a : String) (aep : Ep) (s : HS) : Prop where
-  -- the acceptor
-  a_ex     : ∃ va ac, s.net.sv a = some va ∧ va.acc = some ac ∧ va.chan = none
-  a_open   : ∀ va, s.net.sv a = some va → va.isOpen = true →
-               va.bound = aep ∧ va.fwd = some 0 ∧ s.net.fwdTarget 0 = some a ∧ s.net.reg.tcp.lookup aep = some a
-  a_closed : ∀ va ac, s.net.sv a = some va → va.acc = some ac → va.isOpen = false →
-               ac.queueLimit ≤ 0 ∧ s.net.fwdTarget 0 = none ∧ va.fwd = none
-  reg_a    : ∀ e ∈ s.net.reg.tcp, e.2 = a → e.1 = aep
-  o_acc    : ∀ o v, o ≠ a → s.net.sv o = some v → v.acc = none
-  fwd0     : 0 < s.net.fwds.length
+/-! ### per-epoch slices of the logs -/
+
+theorem synAtL_append (l l' : List (Nat × Nat)) (f : Nat) : synAtL (l ++ l') f = synAtL l f ++ synAtL l' f := by
+  simp [synAtL, List.filter_append]
+
+theorem synAtL_single_same (f c : Nat) : synAtL [(f, c)] f = [c] := by simp [synAtL]
+
+theorem synAtL_single_other (f g c : Nat) (h : f ≠ g) : synAtL [(f, c)] g = [] := by simp [synAtL, h]
+
+theorem mem_synAtL {l : List (Nat × Nat)} {f c : Nat} : c ∈ synAtL l f ↔ (f, c) ∈ l := by
+  simp only [synAtL, List.mem_map, List.mem_filter, beq_iff_eq]
+  constructor
+  · rintro ⟨x, ⟨hx, h1⟩, h2⟩
+    obtain ⟨x1, x2⟩ := x
+    simp only at h1 h2; subst h1; subst h2; exact hx
+  · intro h; exact ⟨(f, c), ⟨h, rfl⟩, rfl⟩
+
+theorem synAtL_nodup {l : List (Nat × Nat)} (h : (l.map (·.2)).Nodup) (f : Nat) : (synAtL l f).Nodup := by
+  unfold synAtL
+  exact h.sublist (List.Sublist.map _ List.filter_sublist)
+
+theorem syn_epoch_unique {l : List (Nat × Nat)} (h : (l.map (·.2)).Nodup) {f g c : Nat}
+    (h1 : (f, c) ∈ l) (h2 : (g, c) ∈ l) : f = g := by
+  induction l with
+  | nil => cases h1
+  | cons x xs ih =>
+    simp only [List.map_cons, List.nodup_cons, List.mem_map] at h
+    rcases List.mem_cons.mp h1 with e1 | e1 <;> rcases List.mem_cons.mp h2 with e2 | e2
+    · rw [← e1] at e2; exact (Prod.mk.inj e2).1.symm
+    · exact absurd ⟨(g, c), e2, by rw [← e1]⟩ h.1
+    · exact absurd ⟨(f, c), e1, by rw [← e2]⟩ h.1
+    · exact ih h.2 e1 e2
+
+theorem accAtL_append (l l' : List AccDone) (f : Nat) : accAtL (l ++ l') f = accAtL l f ++ accAtL l' f := by
+  simp [accAtL, List.filter_append]
+
+theorem accAtL_single_same (e : AccDone) : accAtL [e] e.epoch = [e] := by simp [accAtL]
+
+theorem accAtL_single_other (e : AccDone) (g : Nat) (h : e.epoch ≠ g) : accAtL [e] g = [] := by simp [accAtL, h]
+
+theorem mem_accAtL {l : List AccDone} {f : Nat} {e : AccDone} : e ∈ accAtL l f ↔ e ∈ l ∧ e.epoch = f := by
+  simp [accAtL]
+
+structure HInv (s : HS) : Prop where
+  -- acceptors (the sockets with `acc = some _`)
+  a_chan   : ∀ a va ac, s.net.sv a = some va → va.acc = some ac → va.chan = none
+  a_closed : ∀ a va ac, s.net.sv a = some va → va.acc = some ac → va.isOpen = false → ac.queueLimit ≤ 0 ∧ va.fwd = none
+  a_lis    : ∀ a va ac, s.net.sv a = some va → va.acc = some ac → 0 < ac.queueLimit → va.bound.isDefault = false
+  -- the registry
+  reg_own  : ∀ e ∈ s.net.reg.tcp, ∀ v ac, s.net.sv e.2 = some v → v.acc = some ac → v.bound = e.1
+  bound_reg : ∀ o v, s.net.sv o = some v → v.chan = none → v.bound = {} ∨ s.net.reg.tcp.lookup v.bound = some o
   -- channels
   dial_len : s.dialLog.length = s.net.chans.length
   chan_ok  : ∀ c cv d, s.net.cv c = some cv → s.dialLog[c]? = some d →
-      d.cid = c ∧ d.target = aep ∧ cv.ep0 = d.ep0 ∧ cv.ep1 = aep ∧ cv.vis1 = aep ∧ cv.ep0 ≠ aep
+      d.cid = c ∧ cv.ep0 = d.ep0 ∧ cv.ep1 = d.target ∧ cv.vis1 = d.target ∧ cv.ep0 ≠ d.target
+      ∧ d.target.isDefault = false
       ∧ cv.vis0 = natView s.natLog c cv.ep0
-      ∧ ∃ f0, d.fwd = some f0 ∧ f0 < s.net.fwds.length ∧ f0 ≠ 0
-          ∧ cv.hops0 = route0 s.net.cfg aep cv ++ [fwdHop f0]
-  hops1_q  : ∀ c cv, s.net.cv c = some cv → (∀ e ∈ s.accLog, e.cid ≠ some c) →
-      cv.hops1 = route1 s.net.cfg aep cv ++ [fwdHop 0]
+      ∧ d.epoch < s.net.fwds.length
+      ∧ ∃ f0, d.fwd = some f0 ∧ f0 < s.net.fwds.length ∧ f0 ≠ d.epoch
+          ∧ cv.hops0 = route0 s.net.cfg cv ++ [fwdHop f0]
+  hops1_q  : ∀ c cv d, s.net.cv c = some cv → s.dialLog[c]? = some d → (∀ e ∈ s.accLog, e.cid ≠ some c) →
+      cv.hops1 = route1 s.net.cfg cv ++ [fwdHop d.epoch]
   hops1_a  : ∀ c cv e, s.net.cv c = some cv → e ∈ s.accLog → e.cid = some c →
-      ∃ g, e.fwd = some g ∧ cv.hops1 = route1 s.net.cfg aep cv ++ [fwdHop g]
-  -- the other sockets
-  idle     : ∀ o v, o ≠ a → s.net.sv o = some v → v.chan = none → v.connectH = none
-  idle_b   : ∀ o v va, o ≠ a → s.net.sv o = some v → s.net.sv a = some va → va.isOpen = true →
-               v.chan = none → v.bound ≠ aep
-  conn     : ∀ o v c, o ≠ a → s.net.sv o = some v → v.chan = some c →
+      ∃ g, e.fwd = some g ∧ cv.hops1 = route1 s.net.cfg cv ++ [fwdHop g]
+  d_acc    : ∀ d ∈ s.dialLog, ∀ a va, s.net.sv a = some va → va.fwd = some d.epoch →
+      a = d.lsock ∧ va.bound = d.target ∧ va.acc.isSome
+  -- sockets
+  idle     : ∀ o v, s.net.sv o = some v → v.chan = none → v.connectH = none
+  conn     : ∀ o v c, s.net.sv o = some v → v.chan = some c →
       ∃ cv d, s.net.cv c = some cv ∧ s.dialLog[c]? = some d ∧
         ((v.bound = cv.ep0 ∧ d.sock = o ∧ v.fwd = d.fwd) ∨
-         (v.bound = aep ∧ v.connectH = none ∧
+         (v.bound = d.target ∧ v.connectH = none ∧
             ∃ e ∈ s.accLog, e.cid = some c ∧ e.op.map AcceptOp.peer = some o ∧ v.fwd = e.fwd))
   s_fwd    : ∀ o v f, s.net.sv o = some v → v.fwd = some f → f < s.net.fwds.length ∧ s.net.fwdTarget f = some o
   f_own    : ∀ f o, s.net.fwdTarget f = some o → ∃ v, s.net.sv o = some v ∧ v.fwd = some f
   d_live   : ∀ d ∈ s.dialLog, ∀ o v f, s.net.sv o = some v → v.fwd = some f → d.fwd = some f → v.chan = some d.cid
+  o_fwd    : ∀ o v, s.net.sv o = some v → v.isOpen = true → v.fwd.isSome
   -- packets in flight
   b_syn    : ∀ pk ∈ s.bag, pk.ty = .syn →
-      ∃ c cv, pk.chan = some c ∧ s.net.cv c = some cv ∧ c ∉ s.synLog ∧ pk.hops = cv.hops1
+      ∃ c cv, pk.chan = some c ∧ s.net.cv c = some cv ∧ c ∉ s.synLog.map (·.2) ∧ pk.hops = cv.hops1
   b_syn1   : s.bag.Pairwise (fun p q => p.ty = .syn → q.ty = .syn → p.chan ≠ q.chan)
   b_ack    : ∀ pk ∈ s.bag, pk.ty = .synack →
       ∃ c cv, pk.chan = some c ∧ s.net.cv c = some cv ∧ pk.hops = cv.hops0 ∧ ∃ e ∈ s.accLog, e.cid = some c
   -- arrivals and accepts
-  syn_lt   : ∀ c ∈ s.synLog, c < s.net.chans.length
-  syn_nd   : s.synLog.Nodup
-  fifo     : ∀ va ac, s.net.sv a = some va → va.acc = some ac →
-      ∃ dropped, s.synLog = s.accLog.filterMap (·.cid) ++ dropped ++ ac.conns ∧ (va.isOpen = true → dropped = [])
-  a_log    : ∀ e ∈ s.accLog, ∃ op c g, e.op = some op ∧ e.cid = some c ∧ e.fwd = some g ∧ g ≠ 0 ∧ g < s.net.fwds.length
-      ∧ e.compl.h = op.h ∧ e.compl.ec = .ok ∧ op.peer ≠ a
+  syn_lt   : ∀ x ∈ s.synLog, x.2 < s.net.chans.length ∧ x.1 < s.net.fwds.length
+  syn_nd   : (s.synLog.map (·.2)).Nodup
+  syn_ep   : ∀ x ∈ s.synLog, ∀ d, s.dialLog[x.2]? = some d → d.epoch = x.1
+  fifo     : ∀ a va ac f, s.net.sv a = some va → va.acc = some ac → va.fwd = some f →
+      synAtL s.synLog f = (accAtL s.accLog f).filterMap (·.cid) ++ ac.conns
+  fifo_all : ∀ f, ∃ dropped, synAtL s.synLog f = (accAtL s.accLog f).filterMap (·.cid) ++ dropped
+  a_log    : ∀ e ∈ s.accLog, ∃ op c g d, e.op = some op ∧ e.cid = some c ∧ e.fwd = some g ∧ g ≠ e.epoch
+      ∧ g < s.net.fwds.length ∧ e.epoch < s.net.fwds.length
+      ∧ e.compl.h = op.h ∧ e.compl.ec = .ok
+      ∧ s.dialLog[c]? = some d ∧ d.epoch = e.epoch ∧ d.lsock = e.acc ∧ d.target = e.lep
       ∧ ∀ cv, s.net.cv c = some cv → e.compl.extra = (if op.withEp then "ep=" ++ cv.vis0.toString else "")
-  pend     : ∀ va ac op, s.net.sv a = some va → va.acc = some ac → ac.acceptOp = some op →
-      op.peer ≠ a ∧ (s.net.sv op.peer).isSome ∧ 0 < s.accCalls ∧ ∀ e ∈ s.accLog, e.serial + 1 < s.accCalls
-  ser_lt   : ∀ e ∈ s.accLog, e.serial < s.accCalls
-  ser_mono : s.accLog.Pairwise (fun e e' => e.serial < e'.serial)
+  pend     : ∀ a va ac op, s.net.sv a = some va → va.acc = some ac → ac.acceptOp = some op →
+      (∃ vp, s.net.sv op.peer = some vp ∧ vp.acc = none) ∧ 0 < s.accCalls a
+      ∧ ∀ e ∈ s.accLog, e.acc = a → e.serial + 1 < s.accCalls a
+  ser_lt   : ∀ e ∈ s.accLog, e.serial < s.accCalls e.acc
+  ser_mono : s.accLog.Pairwise (fun e e' => e.acc = e'.acc → e.serial < e'.serial)
   peer_b   : ∀ e ∈ s.accLog, ∀ op c v, e.op = some op → e.cid = some c → s.net.sv op.peer = some v →
-      v.chan = some c → v.bound = aep ∧ v.fwd = e.fwd
+      v.chan = some c → v.bound = e.lep ∧ v.fwd = e.fwd
+  -- connect completions
   con_ok   : ∀ k ∈ s.conLog, ∃ c d, k.cid = some c ∧ s.dialLog[c]? = some d ∧ d.sock = k.sock
-      ∧ ∃ e ∈ s.accLog, e.cid = some c
-  o_fwd    : ∀ o v, s.net.sv o = some v → v.isOpen = true → v.fwd.isSome
+      ∧ (k.ec = .ok → ∃ e ∈ s.accLog, e.cid = some c)
+  con_nd   : (s.conLog.map (·.cid)).Nodup
+  con_pend : ∀ o v c, s.net.sv o = some v → v.chan = some c → v.connectH.isSome → ∀ k ∈ s.conLog, k.cid ≠ some c
   nat_lt   : ∀ x ∈ s.natLog, x.1 < s.net.chans.length
+  -- the registry never holds `0.0.0.0:0` (ephemeral ports start at a positive number)
+  np_pos   : 0 < s.net.reg.nextPort
+  reg_nodef : ∀ e ∈ s.net.reg.tcp, e.1.isDefault = false
+  -- no channel is handed out twice (over all acceptors and epochs)
+  acc_nd   : (s.accLog.map (·.cid)).Nodup
 
 /-- between an arrival / an accept call and `check_accept_queue` the queue may be non-empty
     while an accept is outstanding: everything but that clause -/
-def HInv.work (a : String) (s : HS) : Prop :=
-  ∀ va ac, s.net.sv a = some va → va.acc = some ac → va.isOpen = true → ac.acceptOp.isSome → ac.conns = []
+def HInv.work (s : HS) : Prop :=
+  ∀ a va ac, s.net.sv a = some va → va.acc = some ac → va.isOpen = true → ac.acceptOp.isSome → ac.conns = []
 
 theorem cv_lt {n : NetSt} {c : Nat} {cv : ChanV} (h : n.cv c = some cv) : c < n.chans.length := by
   simp only [NetSt.cv, NetSt.chan?, Option.map_eq_some_iff] at h
@@ -86,154 +143,222 @@ theorem cv_lt {n : NetSt} {c : Nat} {cv : ChanV} (h : n.cv c = some cv) : c < n.
 theorem cv_of_lt {n : NetSt} {c : Nat} (h : c < n.chans.length) : ∃ cv, n.cv c = some cv := by
   simp [NetSt.cv, NetSt.chan?, List.getElem?_eq_getElem h]
 
-/-- **One socket other than the acceptor changes** (close, open, implicit bind, SYN-ACK
-    delivery, a fresh socket object): channels and logs stay, the socket keeps whatever
-    connection it is part of or becomes idle, its forwarder is kept, dropped or fresh. -/
-theorem HInv.upd1 {a : String} {aep : Ep} {s : HS} (h : HInv a aep s) (o : String) (hoa : o ≠ a)
-    (v' : SockV) (n' : NetSt) (bag' : List Pkt) (conLog' : List ConDone)
+/-! ### consequences -/
+
+/-- accepted channels have arrived, in the epoch of the accept -/
+theorem HInv.acc_syn {s : HS} (h : HInv s) (e : AccDone) (he : e ∈ s.accLog) (c : Nat) (hc : e.cid = some c) :
+    (e.epoch, c) ∈ s.synLog := by
+  obtain ⟨dropped, hf⟩ := h.fifo_all e.epoch
+  apply mem_synAtL.mp
+  rw [hf]
+  have : c ∈ (accAtL s.accLog e.epoch).filterMap (·.cid) :=
+    List.mem_filterMap.mpr ⟨e, mem_accAtL.mpr ⟨he, rfl⟩, hc⟩
+  simp [this]
+
+theorem HInv.acc_cid_lt {s : HS} (h : HInv s) (e : AccDone) (he : e ∈ s.accLog)
+    (c : Nat) (hc : e.cid = some c) : c < s.net.chans.length :=
+  (h.syn_lt _ (h.acc_syn e he c hc)).1
+
+/-- a channel whose SYN has not arrived has not been accepted -/
+theorem HInv.not_acc_of_not_syn {s : HS} (h : HInv s) (c : Nat) (hc : c ∉ s.synLog.map (·.2)) :
+    ∀ e ∈ s.accLog, e.cid ≠ some c := by
+  intro e he hec
+  exact hc (List.mem_map.mpr ⟨_, h.acc_syn e he c hec, rfl⟩)
+
+/-- a channel waiting in an acceptor's queue has not been accepted -/
+theorem HInv.not_acc_of_queued {s : HS} (h : HInv s) (a : String) (va : SockV) (ac : AccState) (f c : Nat)
+    (hva : s.net.sv a = some va) (hac : va.acc = some ac) (hf : va.fwd = some f) (hc : c ∈ ac.conns) :
+    ∀ e ∈ s.accLog, e.cid ≠ some c := by
+  intro e he hec
+  have hfifo := h.fifo a va ac f hva hac hf
+  have h1 : (e.epoch, c) ∈ s.synLog := h.acc_syn e he c hec
+  have h2 : (f, c) ∈ s.synLog := by
+    apply mem_synAtL.mp; rw [hfifo]; simp [hc]
+  have hef : e.epoch = f := syn_epoch_unique h.syn_nd h1 h2
+  have hnd := synAtL_nodup h.syn_nd f
+  rw [hfifo] at hnd
+  have : c ∈ (accAtL s.accLog f).filterMap (·.cid) :=
+    List.mem_filterMap.mpr ⟨e, mem_accAtL.mpr ⟨he, hef⟩, hec⟩
+  exact (List.nodup_append.mp hnd).2.2 c this c hc rfl
+
+theorem HInv.queued_syn {s : HS} (h : HInv s) (a : String) (va : SockV) (ac : AccState) (f c : Nat)
+    (hva : s.net.sv a = some va) (hac : va.acc = some ac) (hf : va.fwd = some f) (hc : c ∈ ac.conns) :
+    (f, c) ∈ s.synLog := by
+  apply mem_synAtL.mp; rw [h.fifo a va ac f hva hac hf]; simp [hc]
+
+/-- every dial's epoch and forwarder exist -/
+theorem HInv.dial_lt {s : HS} (h : HInv s) (d : Dial) (hd : d ∈ s.dialLog) :
+    d.epoch < s.net.fwds.length ∧ ∃ f0, d.fwd = some f0 ∧ f0 < s.net.fwds.length ∧ f0 ≠ d.epoch := by
+  obtain ⟨i, hi, hdi⟩ := List.getElem_of_mem hd
+  have hi' : i < s.net.chans.length := by rw [← h.dial_len]; exact hi
+  obtain ⟨cv, hcvi⟩ := cv_of_lt hi'
+  have hdi' : s.dialLog[i]? = some d := by rw [List.getElem?_eq_getElem hi, hdi]
+  obtain ⟨_, _, _, _, _, _, _, r8, f0, r1, r2, r3, _⟩ := h.chan_ok i cv d hcvi hdi'
+  exact ⟨r8, f0, r1, r2, r3⟩
+
+theorem HInv.dial_target {s : HS} (h : HInv s) (d : Dial) (hd : d ∈ s.dialLog) : d.target.isDefault = false := by
+  obtain ⟨i, hi, hdi⟩ := List.getElem_of_mem hd
+  have hi' : i < s.net.chans.length := by rw [← h.dial_len]; exact hi
+  obtain ⟨cv, hcvi⟩ := cv_of_lt hi'
+  have hdi' : s.dialLog[i]? = some d := by rw [List.getElem?_eq_getElem hi, hdi]
+  exact (h.chan_ok i cv d hcvi hdi').2.2.2.2.2.1
+
+theorem isDefault_default : ({} : Ep).isDefault = true := by decide
+
+/-- **One socket changes but for its acceptor state** (close, open, bind, implicit bind,
+    SYN-ACK delivery, cancel, a fresh socket object; an acceptor being opened or bound):
+    channels and logs stay — but for the connect completion `extra` this socket may get —, the
+    socket keeps whatever connection it is part of or becomes idle, its forwarder is kept,
+    dropped or fresh. -/
+theorem HInv.upd1 {s : HS} (h : HInv s) (o : String)
+    (v' : SockV) (n' : NetSt) (bag' : List Pkt) (extra : List ConDone)
     (hcfg : n'.cfg = s.net.cfg)
     (hlen : s.net.fwds.length ≤ n'.fwds.length)
     (hcl : n'.chans.length = s.net.chans.length) (hcv : ∀ c, n'.cv c = s.net.cv c)
     (hsv : ∀ o', n'.sv o' = if o' = o then some v' else s.net.sv o')
     (hreg1 : ∀ e ∈ n'.reg.tcp, e ∈ s.net.reg.tcp ∨ e.2 = o)
-    (hreg2 : s.net.reg.tcp.lookup aep = some a → n'.reg.tcp.lookup aep = some a)
+    (hreg3 : ∀ e ∈ n'.reg.tcp, e.2 = o → ∀ ac, v'.acc = some ac → e.1 = v'.bound)
+    (hreg2 : ∀ k o', o' ≠ o → s.net.reg.tcp.lookup k = some o' → n'.reg.tcp.lookup k = some o')
+    (hnp : 0 < n'.reg.nextPort) (hnd : ∀ e ∈ n'.reg.tcp, e.1.isDefault = false)
     (hft : ∀ g, n'.fwdTarget g = if v'.fwd = some g then some o
                                  else if (s.net.sv o).bind (·.fwd) = some g then none else s.net.fwdTarget g)
-    (p1 : v'.acc = none)
+    (p1 : v'.acc = (s.net.sv o).bind (·.acc))
     (p2 : v'.chan = none → v'.connectH = none)
-    (p3 : ∀ va, s.net.sv a = some va → va.isOpen = true → v'.chan = none → v'.bound ≠ aep)
+    (p3 : v'.chan = none → v'.bound = {} ∨ n'.reg.tcp.lookup v'.bound = some o)
     (p4 : ∀ c, v'.chan = some c → ∃ v, s.net.sv o = some v ∧ v.chan = some c ∧ v'.bound = v.bound ∧ v'.fwd = v.fwd
               ∧ (v'.connectH = v.connectH ∨ v'.connectH = none))
     (p5 : v'.fwd = (s.net.sv o).bind (·.fwd) ∨ v'.fwd = none
           ∨ (v'.fwd = some s.net.fwds.length ∧ s.net.fwds.length < n'.fwds.length))
     (p6 : v'.fwd = (s.net.sv o).bind (·.fwd) → v'.fwd.isSome → v'.chan = (s.net.sv o).bind (·.chan))
     (p7 : v'.isOpen = true → v'.fwd.isSome)
+    (q1 : ∀ ac, v'.acc = some ac → v'.chan = none)
+    (q2 : ∀ ac, v'.acc = some ac → v'.isOpen = false → ac.queueLimit ≤ 0 ∧ v'.fwd = none)
+    (q3 : ∀ ac, v'.acc = some ac → 0 < ac.queueLimit → v'.bound.isDefault = false)
+    (q4 : ∀ ac, v'.acc = some ac → v'.fwd = some s.net.fwds.length → ac.conns = [])
+    (q5 : ∀ v, s.net.sv o = some v → v'.fwd = v.fwd → v'.bound = v.bound ∨ ∀ d ∈ s.dialLog, v'.fwd ≠ some d.epoch)
     (hbag : ∀ pk ∈ bag', pk ∈ s.bag ∨ (pk.ty ≠ .syn ∧ pk.ty ≠ .synack))
     (hbag1 : bag'.Pairwise (fun p q => p.ty = .syn → q.ty = .syn → p.chan ≠ q.chan))
-    (hcon : ∀ k ∈ conLog', k ∈ s.conLog ∨ ∃ c d, k.cid = some c ∧ s.dialLog[c]? = some d ∧ d.sock = k.sock
-              ∧ ∃ e ∈ s.accLog, e.cid = some c) :
-    HInv a aep { s with net := n', bag := bag', conLog := conLog' } := by
-  have hsa : n'.sv a = s.net.sv a := by rw [hsv, if_neg (Ne.symm hoa)]
+    (hx : extra = [] ∨ ∃ v c hh k, s.net.sv o = some v ∧ v.chan = some c ∧ v.connectH = some hh ∧ extra = [k]
+            ∧ k.cid = some c ∧ k.sock = o ∧ (k.ec = .ok → ∃ e ∈ s.accLog, e.cid = some c)
+            ∧ (v'.chan = some c → v'.connectH = none)) :
+    HInv { s with net := n', bag := bag', conLog := s.conLog ++ extra } := by
   have hso : ∀ o', o' ≠ o → n'.sv o' = s.net.sv o' := fun o' ho' => by rw [hsv, if_neg ho']
   have hso' : n'.sv o = some v' := by rw [hsv, if_pos rfl]
-  -- the acceptor's forwarder is not touched
-  have hf0 : ∀ va, s.net.sv a = some va → va.isOpen = true → n'.fwdTarget 0 = some a := by
-    intro va hva hop
-    obtain ⟨_, hfa, hta, _⟩ := h.a_open va hva hop
-    rw [hft]
-    have h1 : v'.fwd ≠ some 0 := by
-      intro h0
-      rcases p5 with p | p | p
-      · rw [h0] at p
-        cases hov : s.net.sv o with
-        | none => simp [hov] at p
-        | some v =>
-          simp [hov] at p
-          have := (h.s_fwd o v 0 hov p.symm).2
-          rw [hta] at this; exact hoa (Option.some.inj this).symm
-      · rw [h0] at p; cases p
-      · rw [h0] at p; have := h.fwd0; simp at p; omega
-    have h2 : (s.net.sv o).bind (·.fwd) ≠ some 0 := by
-      intro h0
+  -- the old forwarder of `o`, if kept, is `o`'s; a fresh one is nobody's
+  have hkept : ∀ f, v'.fwd = some f → f < s.net.fwds.length → ∃ v, s.net.sv o = some v ∧ v.fwd = some f := by
+    intro f hf hlt
+    rcases p5 with p | p | p
+    · rw [hf] at p
+      cases hov : s.net.sv o with
+      | none => simp [hov] at p
+      | some v => simp [hov] at p; exact ⟨v, rfl, p.symm⟩
+    · rw [hf] at p; cases p
+    · rw [hf] at p; simp at p; omega
+  have hnotmine : ∀ o1 v1 f, o1 ≠ o → s.net.sv o1 = some v1 → v1.fwd = some f →
+      v'.fwd ≠ some f ∧ (s.net.sv o).bind (·.fwd) ≠ some f := by
+    intro o1 v1 f ho1 hv1 hf1
+    obtain ⟨q1', q2'⟩ := h.s_fwd o1 v1 f hv1 hf1
+    constructor
+    · intro h0
+      obtain ⟨v, hv, hvf⟩ := hkept f h0 q1'
+      have := (h.s_fwd o v f hv hvf).2
+      rw [q2'] at this; exact ho1 (Option.some.inj this)
+    · intro h0
       cases hov : s.net.sv o with
       | none => simp [hov] at h0
-      | some v =>
+      | some v0 =>
         simp [hov] at h0
-        have := (h.s_fwd o v 0 hov h0).2
-        rw [hta] at this; exact hoa (Option.some.inj this).symm
-    simp [h1, h2, hta]
+        have := (h.s_fwd o v0 f hov h0).2
+        rw [q2'] at this; exact ho1 (Option.some.inj this)
   constructor
-  · -- a_ex
-    obtain ⟨va, ac, h1, h2, h3⟩ := h.a_ex
-    exact ⟨va, ac, by simp [hsa, h1], h2, h3⟩
-  · -- a_open
-    intro va hva hop
-    simp only [hsa] at hva
-    obtain ⟨q1, q2, q3, q4⟩ := h.a_open va hva hop
-    exact ⟨q1, q2, hf0 va hva hop, hreg2 q4⟩
+  · -- a_chan
+    intro a va ac hva hac
+    by_cases ho : a = o
+    · subst ho; rw [hso'] at hva; cases hva; exact q1 ac hac
+    · rw [hso a ho] at hva; exact h.a_chan a va ac hva hac
   · -- a_closed
-    intro va ac hva hac hcl'
-    simp only [hsa] at hva
-    obtain ⟨q1, q2, q3⟩ := h.a_closed va ac hva hac hcl'
-    refine ⟨q1, ?_, q3⟩
-    rw [hft]
-    have h1 : v'.fwd ≠ some 0 := by
-      intro h0
-      rcases p5 with p | p | p
-      · rw [h0] at p
-        cases hov : s.net.sv o with
-        | none => simp [hov] at p
-        | some v =>
-          simp [hov] at p
-          have := (h.s_fwd o v 0 hov p.symm).2
-          rw [q2] at this; cases this
-      · rw [h0] at p; cases p
-      · rw [h0] at p; have := h.fwd0; simp at p; omega
-    simp only [h1, if_false]
-    split
-    · rfl
-    · exact q2
-  · -- reg_a
-    intro e he hea
-    rcases hreg1 e he with h1 | h1
-    · exact h.reg_a e h1 hea
-    · exact absurd (h1.symm.trans hea) hoa
-  · -- o_acc
-    intro o' v hne hv
+    intro a va ac hva hac hcl'
+    by_cases ho : a = o
+    · subst ho; rw [hso'] at hva; cases hva; exact q2 ac hac hcl'
+    · rw [hso a ho] at hva; exact h.a_closed a va ac hva hac hcl'
+  · -- a_lis
+    intro a va ac hva hac hql
+    by_cases ho : a = o
+    · subst ho; rw [hso'] at hva; cases hva; exact q3 ac hac hql
+    · rw [hso a ho] at hva; exact h.a_lis a va ac hva hac hql
+  · -- reg_own
+    intro e he v ac hv hac
+    by_cases ho : e.2 = o
+    · rw [ho, hso'] at hv; cases hv; exact (hreg3 e he ho ac hac).symm
+    · rw [hso _ ho] at hv
+      rcases hreg1 e he with h1 | h1
+      · exact h.reg_own e h1 v ac hv hac
+      · exact absurd h1 ho
+  · -- bound_reg
+    intro o' v hv hch
     by_cases ho : o' = o
-    · subst ho; rw [hso'] at hv; cases hv; exact p1
-    · rw [hso o' ho] at hv; exact h.o_acc o' v hne hv
-  · -- fwd0
-    have := h.fwd0; show 0 < n'.fwds.length; omega
+    · subst ho; rw [hso'] at hv; cases hv; exact p3 hch
+    · rw [hso o' ho] at hv
+      rcases h.bound_reg o' v hv hch with hb | hb
+      · exact Or.inl hb
+      · exact Or.inr (hreg2 _ _ ho hb)
   · -- dial_len
     show s.dialLog.length = n'.chans.length
     rw [hcl]; exact h.dial_len
   · -- chan_ok
     intro c cv d hc hd
     simp only [hcv] at hc
-    obtain ⟨q1, q2, q3, q4, q5, q6, q7, f0, r1, r2, r3, r4⟩ := h.chan_ok c cv d hc hd
-    refine ⟨q1, q2, q3, q4, q5, q6, q7, f0, r1, by show f0 < n'.fwds.length; omega, r3, ?_⟩
-    show cv.hops0 = route0 n'.cfg aep cv ++ [fwdHop f0]
+    obtain ⟨q1', q2', q3', q4', q5', q6', q7', q8', f0, r1, r2, r3, r4⟩ := h.chan_ok c cv d hc hd
+    refine ⟨q1', q2', q3', q4', q5', q6', q7', by show d.epoch < n'.fwds.length; omega, f0, r1,
+      by show f0 < n'.fwds.length; omega, r3, ?_⟩
+    show cv.hops0 = route0 n'.cfg cv ++ [fwdHop f0]
     rw [hcfg]; exact r4
   · -- hops1_q
-    intro c cv hc hq
+    intro c cv d hc hd hq
     simp only [hcv] at hc
-    show cv.hops1 = route1 n'.cfg aep cv ++ [fwdHop 0]
-    rw [hcfg]; exact h.hops1_q c cv hc hq
+    show cv.hops1 = route1 n'.cfg cv ++ [fwdHop d.epoch]
+    rw [hcfg]; exact h.hops1_q c cv d hc hd hq
   · -- hops1_a
     intro c cv e hc he hec
     simp only [hcv] at hc
-    show ∃ g, e.fwd = some g ∧ cv.hops1 = route1 n'.cfg aep cv ++ [fwdHop g]
+    show ∃ g, e.fwd = some g ∧ cv.hops1 = route1 n'.cfg cv ++ [fwdHop g]
     rw [hcfg]; exact h.hops1_a c cv e hc he hec
+  · -- d_acc
+    intro d hd a va hva hvf
+    by_cases ho : a = o
+    · subst ho; rw [hso'] at hva; cases hva
+      obtain ⟨hdl, _⟩ := h.dial_lt d hd
+      obtain ⟨v, hv, hvf0⟩ := hkept d.epoch hvf hdl
+      obtain ⟨r1, r2, r3⟩ := h.d_acc d hd a v hv hvf0
+      refine ⟨r1, ?_, ?_⟩
+      · rcases q5 v hv (hvf.trans hvf0.symm) with hb | hb
+        · rw [hb]; exact r2
+        · exact absurd hvf (hb d hd)
+      · rw [p1, hv]; exact r3
+    · rw [hso a ho] at hva; exact h.d_acc d hd a va hva hvf
   · -- idle
-    intro o' v hne hv hch
+    intro o' v hv hch
     by_cases ho : o' = o
     · subst ho; rw [hso'] at hv; cases hv; exact p2 hch
-    · rw [hso o' ho] at hv; exact h.idle o' v hne hv hch
-  · -- idle_b
-    intro o' v va hne hv hva hop hch
-    simp only [hsa] at hva
-    by_cases ho : o' = o
-    · subst ho; rw [hso'] at hv; cases hv; exact p3 va hva hop hch
-    · rw [hso o' ho] at hv; exact h.idle_b o' v va hne hv hva hop hch
+    · rw [hso o' ho] at hv; exact h.idle o' v hv hch
   · -- conn
-    intro o' v c hne hv hch
+    intro o' v c hv hch
     simp only [hcv]
     by_cases ho : o' = o
     · subst ho; rw [hso'] at hv; cases hv
       obtain ⟨v0, hv0, hc0, hb0, hf0', hk0⟩ := p4 c hch
-      obtain ⟨cv, d, q1, q2, q3⟩ := h.conn o' v0 c hne hv0 hc0
-      refine ⟨cv, d, q1, q2, ?_⟩
-      rcases q3 with ⟨r1, r2, r3⟩ | ⟨r1, r2, r3⟩
-      · left; exact ⟨hb0.trans r1, r2, hf0'.trans r3⟩
+      obtain ⟨cv, d, r1, r2, r3⟩ := h.conn o' v0 c hv0 hc0
+      refine ⟨cv, d, r1, r2, ?_⟩
+      rcases r3 with ⟨t1, t2, t3⟩ | ⟨t1, t2, t3⟩
+      · left; exact ⟨hb0.trans t1, t2, hf0'.trans t3⟩
       · right
-        refine ⟨hb0.trans r1, ?_, ?_⟩
+        refine ⟨hb0.trans t1, ?_, ?_⟩
         · rcases hk0 with k | k
-          · exact k.trans r2
+          · exact k.trans t2
           · exact k
-        · obtain ⟨e, he, r4, r5, r6⟩ := r3
+        · obtain ⟨e, he, r4, r5, r6⟩ := t3
           exact ⟨e, he, r4, r5, hf0'.trans r6⟩
-    · rw [hso o' ho] at hv; exact h.conn o' v c hne hv hch
+    · rw [hso o' ho] at hv; exact h.conn o' v c hv hch
   · -- s_fwd
     intro o' v f hv hf
     by_cases ho : o' = o
@@ -250,30 +375,11 @@ theorem HInv.upd1 {a : String} {aep : Ep} {s : HS} (h : HInv a aep s) (o : Strin
       · rw [hf] at p; cases p
       · rw [hf] at p; simp at p; omega
     · rw [hso o' ho] at hv
-      obtain ⟨q1, q2⟩ := h.s_fwd o' v f hv hf
+      obtain ⟨r1, r2⟩ := h.s_fwd o' v f hv hf
+      obtain ⟨h1, h2⟩ := hnotmine o' v f ho hv hf
       refine ⟨by show f < n'.fwds.length; omega, ?_⟩
       rw [hft]
-      have h1 : v'.fwd ≠ some f := by
-        intro h0
-        rcases p5 with p | p | p
-        · rw [h0] at p
-          cases hov : s.net.sv o with
-          | none => simp [hov] at p
-          | some v0 =>
-            simp [hov] at p
-            have := (h.s_fwd o v0 f hov p.symm).2
-            rw [q2] at this; exact ho (Option.some.inj this)
-        · rw [h0] at p; cases p
-        · rw [h0] at p; simp at p; omega
-      have h2 : (s.net.sv o).bind (·.fwd) ≠ some f := by
-        intro h0
-        cases hov : s.net.sv o with
-        | none => simp [hov] at h0
-        | some v0 =>
-          simp [hov] at h0
-          have := (h.s_fwd o v0 f hov h0).2
-          rw [q2] at this; exact ho (Option.some.inj this)
-      simp [h1, h2, q2]
+      simp [h1, h2, r2]
   · -- f_own
     intro f o' hfo
     rw [hft] at hfo
@@ -283,16 +389,18 @@ theorem HInv.upd1 {a : String} {aep : Ep} {s : HS} (h : HInv a aep s) (o : Strin
       exact ⟨v', hso', hvf⟩
     · split at hfo
       · cases hfo
-      · obtain ⟨v, q1, q2⟩ := h.f_own f o' hfo
+      · obtain ⟨v, r1, r2⟩ := h.f_own f o' hfo
         by_cases ho : o' = o
         · subst ho
           rename_i hn1 hn2
-          simp [q1, q2] at hn2
-        · exact ⟨v, by rw [hso o' ho]; exact q1, q2⟩
+          simp [r1, r2] at hn2
+        · exact ⟨v, by rw [hso o' ho]; exact r1, r2⟩
   · -- d_live
     intro d hd o' v f hv hf hdf
     by_cases ho : o' = o
     · subst ho; rw [hso'] at hv; cases hv
+      obtain ⟨_, f0, r1, r2, _⟩ := h.dial_lt d hd
+      rw [hdf] at r1; cases r1
       rcases p5 with p | p | p
       · have hs := p6 p (by simp [hf])
         rw [hs]
@@ -303,15 +411,13 @@ theorem HInv.upd1 {a : String} {aep : Ep} {s : HS} (h : HInv a aep s) (o : Strin
           simp only [hov, Option.bind_some]
           exact h.d_live d hd o' v0 f hov p.symm hdf
       · rw [hf] at p; cases p
-      · rw [hf] at p; simp at p
-        -- no dial has a fresh forwarder
-        obtain ⟨i, hi, hdi⟩ := List.getElem_of_mem hd
-        have hi' : i < s.net.chans.length := by rw [← h.dial_len]; exact hi
-        obtain ⟨cv, hcvi⟩ := cv_of_lt hi'
-        have hdi' : s.dialLog[i]? = some d := by rw [List.getElem?_eq_getElem hi, hdi]
-        obtain ⟨_, _, _, _, _, _, _, f0, r1, r2, _⟩ := h.chan_ok i cv d hcvi hdi'
-        rw [hdf] at r1; cases r1; omega
+      · rw [hf] at p; simp at p; omega
     · rw [hso o' ho] at hv; exact h.d_live d hd o' v f hv hf hdf
+  · -- o_fwd
+    intro o' v hv hop
+    by_cases ho : o' = o
+    · subst ho; rw [hso'] at hv; cases hv; exact p7 hop
+    · rw [hso o' ho] at hv; exact h.o_fwd o' v hv hop
   · -- b_syn
     intro pk hpk hty
     simp only [hcv]
@@ -326,26 +432,67 @@ theorem HInv.upd1 {a : String} {aep : Ep} {s : HS} (h : HInv a aep s) (o : Strin
     · exact h.b_ack pk hb hty
     · exact absurd hty hb.2
   · -- syn_lt
-    intro c hc; show c < n'.chans.length; rw [hcl]; exact h.syn_lt c hc
+    intro x hx
+    obtain ⟨r1, r2⟩ := h.syn_lt x hx
+    exact ⟨by show x.2 < n'.chans.length; rw [hcl]; exact r1, by show x.1 < n'.fwds.length; omega⟩
   · exact h.syn_nd
+  · exact h.syn_ep
   · -- fifo
-    intro va ac hva hac
-    simp only [hsa] at hva
-    exact h.fifo va ac hva hac
+    intro a va ac f hva hac hvf
+    by_cases ho : a = o
+    · subst ho; rw [hso'] at hva; cases hva
+      by_cases hlt : f < s.net.fwds.length
+      · obtain ⟨v, hv, hvf0⟩ := hkept f hvf hlt
+        have hacc : v.acc = some ac := by
+          have := p1; rw [hv] at this; simp only [Option.bind_some] at this; rw [← this]; exact hac
+        exact h.fifo a v ac f hv hacc hvf0
+      · -- a fresh forwarder: nothing arrived, nothing accepted, nothing queued
+        have hfr : f = s.net.fwds.length := by
+          rcases p5 with p | p | p
+          · rw [hvf] at p
+            cases hov : s.net.sv a with
+            | none => simp [hov] at p
+            | some v0 =>
+              simp [hov] at p
+              have := (h.s_fwd a v0 f hov p.symm).1; omega
+          · rw [hvf] at p; cases p
+          · rw [hvf] at p; simp at p; exact p.1
+        have h1 : synAtL s.synLog f = [] := by
+          unfold synAtL
+          rw [List.map_eq_nil_iff, List.filter_eq_nil_iff]
+          intro x hx; have := (h.syn_lt x hx).2; simp; omega
+        have h2 : accAtL s.accLog f = [] := by
+          unfold accAtL
+          rw [List.filter_eq_nil_iff]
+          intro e he
+          obtain ⟨_, _, _, _, _, _, _, _, _, r6, _⟩ := h.a_log e he
+          simp; omega
+        show synAtL s.synLog f = (accAtL s.accLog f).filterMap (·.cid) ++ ac.conns
+        rw [h1, h2, q4 ac hac (by rw [hvf, hfr])]; rfl
+    · rw [hso a ho] at hva; exact h.fifo a va ac f hva hac hvf
+  · exact h.fifo_all
   · -- a_log
     intro e he
-    obtain ⟨op, c, g, q1, q2, q3, q4, q5, q6, q7, q8, q9⟩ := h.a_log e he
-    refine ⟨op, c, g, q1, q2, q3, q4, by show g < n'.fwds.length; omega, q6, q7, q8, ?_⟩
-    intro cv hc; simp only [hcv] at hc; exact q9 cv hc
+    obtain ⟨op, c, g, d, r1, r2, r3, r4, r5, r6, r7, r8, r9, r10, r11, r12, r13⟩ := h.a_log e he
+    refine ⟨op, c, g, d, r1, r2, r3, r4, by show g < n'.fwds.length; omega, by show e.epoch < n'.fwds.length; omega,
+      r7, r8, r9, r10, r11, r12, ?_⟩
+    intro cv hc; simp only [hcv] at hc; exact r13 cv hc
   · -- pend
-    intro va ac op hva hac hop
-    simp only [hsa] at hva
-    obtain ⟨q1, q2, q3, q4⟩ := h.pend va ac op hva hac hop
-    refine ⟨q1, ?_, q3, q4⟩
-    show (n'.sv op.peer).isSome = true
-    rw [hsv]; split
-    · rfl
-    · exact q2
+    intro a va ac op hva hac hop
+    have hold : ∃ va0, s.net.sv a = some va0 ∧ va0.acc = some ac := by
+      by_cases ho : a = o
+      · subst ho; rw [hso'] at hva; cases hva
+        cases hov : s.net.sv a with
+        | none => rw [p1, hov] at hac; cases hac
+        | some v0 => rw [p1, hov] at hac; exact ⟨v0, rfl, hac⟩
+      · rw [hso a ho] at hva; exact ⟨va, hva, hac⟩
+    obtain ⟨va0, hva0, hac0⟩ := hold
+    obtain ⟨⟨vp, hvp, hvpa⟩, r2, r3⟩ := h.pend a va0 ac op hva0 hac0 hop
+    refine ⟨?_, r2, r3⟩
+    by_cases hp : op.peer = o
+    · refine ⟨v', by rw [hp]; exact hso', ?_⟩
+      rw [p1, ← hp, hvp]; exact hvpa
+    · exact ⟨vp, by rw [hso _ hp]; exact hvp, hvpa⟩
   · exact h.ser_lt
   · exact h.ser_mono
   · -- peer_b
@@ -353,99 +500,197 @@ theorem HInv.upd1 {a : String} {aep : Ep} {s : HS} (h : HInv a aep s) (o : Strin
     by_cases ho : op.peer = o
     · rw [ho, hso'] at hv; cases hv
       obtain ⟨v0, hv0, hc0, hb0, hf0', _⟩ := p4 c hch
-      obtain ⟨q1, q2⟩ := h.peer_b e he op c v0 heo hec (by rw [ho]; exact hv0) hc0
-      exact ⟨hb0.trans q1, hf0'.trans q2⟩
+      obtain ⟨r1, r2⟩ := h.peer_b e he op c v0 heo hec (by rw [ho]; exact hv0) hc0
+      exact ⟨hb0.trans r1, hf0'.trans r2⟩
     · rw [hso _ ho] at hv; exact h.peer_b e he op c v heo hec hv hch
   · -- con_ok
     intro k hk
-    rcases hcon k hk with hk' | hk'
+    rcases List.mem_append.mp hk with hk' | hk'
     · exact h.con_ok k hk'
-    · exact hk'
-  · -- o_fwd
-    intro o' v hv hop
-    by_cases ho : o' = o
-    · subst ho; rw [hso'] at hv; cases hv; exact p7 hop
-    · rw [hso o' ho] at hv; exact h.o_fwd o' v hv hop
-  · intro x hx; show x.1 < n'.chans.length; rw [hcl]; exact h.nat_lt x hx
+    · rcases hx with hx | ⟨v, c, hh, k0, x1, x2, x3, x4, x5, x6, x7, _⟩
+      · rw [hx] at hk'; cases hk'
+      · rw [x4, List.mem_singleton] at hk'; subst hk'
+        obtain ⟨cv, d, r1, r2, r3⟩ := h.conn o v c x1 x2
+        refine ⟨c, d, x5, r2, ?_, x7⟩
+        rcases r3 with ⟨_, t2, _⟩ | ⟨_, t2, _⟩
+        · rw [x6]; exact t2
+        · rw [x3] at t2; cases t2
+  · -- con_nd
+    show ((s.conLog ++ extra).map (·.cid)).Nodup
+    rcases hx with hx | ⟨v, c, hh, k0, x1, x2, x3, x4, x5, _⟩
+    · rw [hx, List.append_nil]; exact h.con_nd
+    · rw [x4, List.map_append, List.nodup_append]
+      refine ⟨h.con_nd, by simp, ?_⟩
+      intro y hy z hz
+      simp only [List.map_cons, List.map_nil, List.mem_singleton] at hz
+      subst hz
+      obtain ⟨k, hk, hky⟩ := List.mem_map.mp hy
+      intro hyz
+      exact h.con_pend o v c x1 x2 (by rw [x3]; rfl) k hk (by rw [hky, hyz, x5])
+  · -- con_pend
+    intro o' v c hv hch hpe k hk
+    -- the pending socket was pending on the same channel before
+    have hold : ∃ v0, s.net.sv o' = some v0 ∧ v0.chan = some c ∧ v0.connectH.isSome := by
+      by_cases ho : o' = o
+      · subst ho; rw [hso'] at hv; cases hv
+        obtain ⟨v0, hv0, hc0, _, _, hk0⟩ := p4 c hch
+        rcases hk0 with k1 | k1
+        · exact ⟨v0, hv0, hc0, by rw [← k1]; exact hpe⟩
+        · rw [k1] at hpe; cases hpe
+      · rw [hso o' ho] at hv; exact ⟨v, hv, hch, hpe⟩
+    obtain ⟨v0, hv0, hc0, hpe0⟩ := hold
+    rcases List.mem_append.mp hk with hk' | hk'
+    · exact h.con_pend o' v0 c hv0 hc0 hpe0 k hk'
+    · rcases hx with hx | ⟨v1, c1, hh, k0, x1, x2, x3, x4, x5, x6, x7, x8⟩
+      · rw [hx] at hk'; cases hk'
+      · rw [x4, List.mem_singleton] at hk'; subst hk'
+        intro hkc
+        rw [x5] at hkc; cases hkc
+        -- both pending on `c`: the same socket (the one that dialled), which is no longer pending
+        have ho : o' = o := by
+          obtain ⟨cv, d, _, r2, r3⟩ := h.conn o' v0 c hv0 hc0
+          obtain ⟨cv', d', _, r2', r3'⟩ := h.conn o v1 c x1 x2
+          rw [r2] at r2'; cases r2'
+          rcases r3 with ⟨_, t2, _⟩ | ⟨_, t2, _⟩
+          · rcases r3' with ⟨_, t2', _⟩ | ⟨_, t2', _⟩
+            · rw [← t2, ← t2']
+            · rw [x3] at t2'; cases t2'
+          · rw [t2] at hpe0; cases hpe0
+        subst ho
+        rw [hso'] at hv; cases hv
+        rw [x8 hch] at hpe; cases hpe
+  · intro x hx'; show x.1 < n'.chans.length; rw [hcl]; exact h.nat_lt x hx'
+  · exact hnp
+  · exact hnd
+  · exact h.acc_nd
 
-/-- **Only the acceptor's own state changes** (listen, a SYN queued, an accept stored, the
-    queue of a closed acceptor reset): `m_queue_size_limit`, `m_incoming_conns`, the accept slot. -/
-theorem HInv.updA {a : String} {aep : Ep} {s : HS} (h : HInv a aep s)
+/-- **Only an acceptor's own state changes** (listen, a SYN queued, an accept stored or
+    aborted, the queue of a closed acceptor reset): `m_queue_size_limit`, `m_incoming_conns`,
+    the accept slot. -/
+theorem HInv.updA {s : HS} (h : HInv s) (a : String)
     (va : SockV) (ac ac' : AccState) (hva : s.net.sv a = some va) (hac : va.acc = some ac)
-    (n' : NetSt) (bag' : List Pkt) (synLog' : List Nat) (accCalls' : Nat)
+    (n' : NetSt) (bag' : List Pkt) (synLog' : List (Nat × Nat)) (accCalls' : String → Nat)
     (hcfg : n'.cfg = s.net.cfg) (hfw : n'.fwds.length = s.net.fwds.length)
     (hcl : n'.chans.length = s.net.chans.length) (hcv : ∀ c, n'.cv c = s.net.cv c)
     (hsv : ∀ o, n'.sv o = if o = a then some { va with acc := some ac' } else s.net.sv o)
-    (hreg : n'.reg.tcp = s.net.reg.tcp) (hft : ∀ g, n'.fwdTarget g = s.net.fwdTarget g)
+    (hreg : n'.reg.tcp = s.net.reg.tcp) (hnp : 0 < n'.reg.nextPort) (hft : ∀ g, n'.fwdTarget g = s.net.fwdTarget g)
     (hql : va.isOpen = false → ac'.queueLimit ≤ 0)
-    (hfifo : ∃ dropped, synLog' = s.accLog.filterMap (·.cid) ++ dropped ++ ac'.conns ∧ (va.isOpen = true → dropped = []))
-    (hpend : ∀ op, ac'.acceptOp = some op → op.peer ≠ a ∧ (s.net.sv op.peer).isSome ∧ 0 < accCalls'
-               ∧ ∀ e ∈ s.accLog, e.serial + 1 < accCalls')
-    (hcalls : s.accCalls ≤ accCalls')
-    (hsyn1 : ∀ c ∈ synLog', c < s.net.chans.length) (hsyn2 : synLog'.Nodup)
+    (hlis : 0 < ac'.queueLimit → va.bound.isDefault = false)
+    (hfifo : ∀ f, va.fwd = some f → synAtL synLog' f = (accAtL s.accLog f).filterMap (·.cid) ++ ac'.conns)
+    (hfifo2 : ∀ f, va.fwd ≠ some f → synAtL synLog' f = synAtL s.synLog f)
+    (hpend : ∀ op, ac'.acceptOp = some op → (∃ vp, s.net.sv op.peer = some vp ∧ vp.acc = none) ∧ 0 < accCalls' a
+               ∧ ∀ e ∈ s.accLog, e.acc = a → e.serial + 1 < accCalls' a)
+    (hcalls : ∀ x, s.accCalls x ≤ accCalls' x) (hcalls2 : ∀ x, x ≠ a → accCalls' x = s.accCalls x)
+    (hsyn1 : ∀ x ∈ synLog', x.2 < s.net.chans.length ∧ x.1 < s.net.fwds.length)
+    (hsyn2 : (synLog'.map (·.2)).Nodup)
+    (hsyn3 : ∀ x ∈ synLog', ∀ d, s.dialLog[x.2]? = some d → d.epoch = x.1)
     (hbag : ∀ pk ∈ bag', pk ∈ s.bag ∨ (pk.ty ≠ .syn ∧ pk.ty ≠ .synack))
     (hbag1 : bag'.Pairwise (fun p q => p.ty = .syn → q.ty = .syn → p.chan ≠ q.chan))
-    (hbag2 : ∀ pk ∈ bag', pk.ty = .syn → ∀ c, pk.chan = some c → c ∉ synLog') :
-    HInv a aep { s with net := n', bag := bag', synLog := synLog', accCalls := accCalls' } := by
+    (hbag2 : ∀ pk ∈ bag', pk.ty = .syn → ∀ c, pk.chan = some c → c ∉ synLog'.map (·.2)) :
+    HInv { s with net := n', bag := bag', synLog := synLog', accCalls := accCalls' } := by
   have hsa : n'.sv a = some { va with acc := some ac' } := by rw [hsv, if_pos rfl]
   have hso : ∀ o, o ≠ a → n'.sv o = s.net.sv o := fun o ho => by rw [hsv, if_neg ho]
-  have hvch : va.chan = none := by
-    obtain ⟨va0, _, h1, _, h3⟩ := h.a_ex
-    rw [hva] at h1; cases h1; exact h3
+  have hvch : va.chan = none := h.a_chan a va ac hva hac
+  -- sockets that are not acceptors are not `a`
+  have hna : ∀ o v, s.net.sv o = some v → v.acc = none → o ≠ a := by
+    intro o v hv hvn hoa; subst hoa; rw [hva] at hv; cases hv; rw [hac] at hvn; cases hvn
   constructor
-  · exact ⟨_, ac', hsa, rfl, hvch⟩
-  · intro va1 hva1 hop
-    rw [hsa] at hva1; cases hva1
-    obtain ⟨q1, q2, q3, q4⟩ := h.a_open va hva hop
-    exact ⟨q1, q2, by rw [hft]; exact q3, by rw [hreg]; exact q4⟩
-  · intro va1 ac1 hva1 hac1 hcl'
-    rw [hsa] at hva1; cases hva1
-    simp only [Option.some.injEq] at hac1; subst hac1
-    obtain ⟨q1, q2, q3⟩ := h.a_closed va ac hva hac hcl'
-    exact ⟨hql hcl', by rw [hft]; exact q2, q3⟩
-  · intro e he; rw [hreg] at he; exact h.reg_a e he
-  · intro o v hne hv; rw [hso o hne] at hv; exact h.o_acc o v hne hv
-  · show 0 < n'.fwds.length; rw [hfw]; exact h.fwd0
+  · -- a_chan
+    intro a1 va1 ac1 hva1 hac1
+    by_cases ho : a1 = a
+    · subst ho; rw [hsa] at hva1; cases hva1; exact hvch
+    · rw [hso a1 ho] at hva1; exact h.a_chan a1 va1 ac1 hva1 hac1
+  · -- a_closed
+    intro a1 va1 ac1 hva1 hac1 hcl'
+    by_cases ho : a1 = a
+    · subst ho; rw [hsa] at hva1; cases hva1
+      simp only [Option.some.injEq] at hac1; subst hac1
+      exact ⟨hql hcl', (h.a_closed a1 va ac hva hac hcl').2⟩
+    · rw [hso a1 ho] at hva1; exact h.a_closed a1 va1 ac1 hva1 hac1 hcl'
+  · -- a_lis
+    intro a1 va1 ac1 hva1 hac1 hq
+    by_cases ho : a1 = a
+    · subst ho; rw [hsa] at hva1; cases hva1
+      simp only [Option.some.injEq] at hac1; subst hac1
+      exact hlis hq
+    · rw [hso a1 ho] at hva1; exact h.a_lis a1 va1 ac1 hva1 hac1 hq
+  · -- reg_own
+    intro e he v ac1 hv hac1
+    rw [hreg] at he
+    by_cases ho : e.2 = a
+    · rw [ho, hsa] at hv; cases hv
+      exact h.reg_own e he va ac (by rw [ho]; exact hva) hac
+    · rw [hso _ ho] at hv; exact h.reg_own e he v ac1 hv hac1
+  · -- bound_reg
+    intro o v hv hch
+    show v.bound = {} ∨ n'.reg.tcp.lookup v.bound = some o
+    rw [hreg]
+    by_cases ho : o = a
+    · subst ho; rw [hsa] at hv; cases hv; exact h.bound_reg o va hva hvch
+    · rw [hso o ho] at hv; exact h.bound_reg o v hv hch
   · show s.dialLog.length = n'.chans.length; rw [hcl]; exact h.dial_len
-  · intro c cv d hc hd
+  · -- chan_ok
+    intro c cv d hc hd
     simp only [hcv] at hc
-    obtain ⟨q1, q2, q3, q4, q5, q6, q7, f0, r1, r2, r3, r4⟩ := h.chan_ok c cv d hc hd
-    refine ⟨q1, q2, q3, q4, q5, q6, q7, f0, r1, by show f0 < n'.fwds.length; omega, r3, ?_⟩
-    show cv.hops0 = route0 n'.cfg aep cv ++ [fwdHop f0]
+    obtain ⟨q1, q2, q3, q4, q5, q6, q7, q8, f0, r1, r2, r3, r4⟩ := h.chan_ok c cv d hc hd
+    refine ⟨q1, q2, q3, q4, q5, q6, q7, by show d.epoch < n'.fwds.length; omega, f0, r1,
+      by show f0 < n'.fwds.length; omega, r3, ?_⟩
+    show cv.hops0 = route0 n'.cfg cv ++ [fwdHop f0]
     rw [hcfg]; exact r4
-  · intro c cv hc hq
+  · intro c cv d hc hd hq
     simp only [hcv] at hc
-    show cv.hops1 = route1 n'.cfg aep cv ++ [fwdHop 0]
-    rw [hcfg]; exact h.hops1_q c cv hc hq
+    show cv.hops1 = route1 n'.cfg cv ++ [fwdHop d.epoch]
+    rw [hcfg]; exact h.hops1_q c cv d hc hd hq
   · intro c cv e hc he hec
     simp only [hcv] at hc
-    show ∃ g, e.fwd = some g ∧ cv.hops1 = route1 n'.cfg aep cv ++ [fwdHop g]
+    show ∃ g, e.fwd = some g ∧ cv.hops1 = route1 n'.cfg cv ++ [fwdHop g]
     rw [hcfg]; exact h.hops1_a c cv e hc he hec
-  · intro o v hne hv hch; rw [hso o hne] at hv; exact h.idle o v hne hv hch
-  · intro o v va1 hne hv hva1 hop hch
-    rw [hso o hne] at hv; rw [hsa] at hva1; cases hva1
-    exact h.idle_b o v va hne hv hva hop hch
-  · intro o v c hne hv hch
-    rw [hso o hne] at hv; simp only [hcv]; exact h.conn o v c hne hv hch
-  · intro o v f hv hf
+  · -- d_acc
+    intro d hd a1 va1 hva1 hvf
+    by_cases ho : a1 = a
+    · subst ho; rw [hsa] at hva1; cases hva1
+      obtain ⟨r1, r2, _⟩ := h.d_acc d hd a1 va hva hvf
+      exact ⟨r1, r2, rfl⟩
+    · rw [hso a1 ho] at hva1; exact h.d_acc d hd a1 va1 hva1 hvf
+  · -- idle
+    intro o v hv hch
+    by_cases ho : o = a
+    · subst ho; rw [hsa] at hv; cases hv; exact h.idle o va hva hvch
+    · rw [hso o ho] at hv; exact h.idle o v hv hch
+  · -- conn
+    intro o v c hv hch
+    by_cases ho : o = a
+    · subst ho; rw [hsa] at hv; cases hv
+      simp only at hch; rw [hvch] at hch; cases hch
+    · rw [hso o ho] at hv; simp only [hcv]; exact h.conn o v c hv hch
+  · -- s_fwd
+    intro o v f hv hf
     show f < n'.fwds.length ∧ n'.fwdTarget f = some o
     rw [hfw, hft]
     by_cases ho : o = a
     · subst ho; rw [hsa] at hv; cases hv; exact h.s_fwd o va f hva hf
     · rw [hso o ho] at hv; exact h.s_fwd o v f hv hf
-  · intro f o hfo
+  · -- f_own
+    intro f o hfo
     rw [hft] at hfo
     obtain ⟨v, q1, q2⟩ := h.f_own f o hfo
     by_cases ho : o = a
     · subst ho; rw [hva] at q1; cases q1; exact ⟨_, hsa, q2⟩
     · exact ⟨v, by rw [hso o ho]; exact q1, q2⟩
-  · intro d hd o v f hv hf hdf
+  · -- d_live
+    intro d hd o v f hv hf hdf
     by_cases ho : o = a
     · subst ho; rw [hsa] at hv; cases hv
       have := h.d_live d hd o va f hva hf hdf
       rw [hvch] at this; cases this
     · rw [hso o ho] at hv; exact h.d_live d hd o v f hv hf hdf
-  · intro pk hpk hty
+  · -- o_fwd
+    intro o v hv hop
+    by_cases ho : o = a
+    · subst ho; rw [hsa] at hv; cases hv; exact h.o_fwd o va hva hop
+    · rw [hso o ho] at hv; exact h.o_fwd o v hv hop
+  · -- b_syn
+    intro pk hpk hty
     simp only [hcv]
     rcases hbag pk hpk with hb | hb
     · obtain ⟨c, cv, q1, q2, _, q4⟩ := h.b_syn pk hb hty
@@ -457,39 +702,81 @@ theorem HInv.updA {a : String} {aep : Ep} {s : HS} (h : HInv a aep s)
     rcases hbag pk hpk with hb | hb
     · exact h.b_ack pk hb hty
     · exact absurd hty hb.2
-  · intro c hc; show c < n'.chans.length; rw [hcl]; exact hsyn1 c hc
+  · -- syn_lt
+    intro x hx
+    obtain ⟨r1, r2⟩ := hsyn1 x hx
+    exact ⟨by show x.2 < n'.chans.length; rw [hcl]; exact r1, by show x.1 < n'.fwds.length; rw [hfw]; exact r2⟩
   · exact hsyn2
-  · intro va1 ac1 hva1 hac1
-    rw [hsa] at hva1; cases hva1
-    simp only [Option.some.injEq] at hac1; subst hac1
-    exact hfifo
-  · intro e he
-    obtain ⟨op, c, g, q1, q2, q3, q4, q5, q6, q7, q8, q9⟩ := h.a_log e he
-    refine ⟨op, c, g, q1, q2, q3, q4, by show g < n'.fwds.length; omega, q6, q7, q8, ?_⟩
-    intro cv hc; simp only [hcv] at hc; exact q9 cv hc
-  · intro va1 ac1 op hva1 hac1 hop
-    rw [hsa] at hva1; cases hva1
-    simp only [Option.some.injEq] at hac1; subst hac1
-    obtain ⟨q1, q2, q3, q4⟩ := hpend op hop
-    refine ⟨q1, ?_, q3, q4⟩
-    show (n'.sv op.peer).isSome = true
-    rw [hso _ q1]; exact q2
-  · intro e he; have := h.ser_lt e he; show e.serial < accCalls'; omega
+  · exact hsyn3
+  · -- fifo
+    intro a1 va1 ac1 f hva1 hac1 hvf
+    by_cases ho : a1 = a
+    · subst ho; rw [hsa] at hva1; cases hva1
+      simp only [Option.some.injEq] at hac1; subst hac1
+      exact hfifo f hvf
+    · rw [hso a1 ho] at hva1
+      have hne : va.fwd ≠ some f := by
+        intro hvf'
+        have h1 := (h.s_fwd a1 va1 f hva1 hvf).2
+        have h2 := (h.s_fwd a va f hva hvf').2
+        rw [h1] at h2; exact ho (Option.some.inj h2)
+      show synAtL synLog' f = _
+      rw [hfifo2 f hne]; exact h.fifo a1 va1 ac1 f hva1 hac1 hvf
+  · -- fifo_all
+    intro f
+    show ∃ dropped, synAtL synLog' f = _ ++ dropped
+    by_cases hvf : va.fwd = some f
+    · exact ⟨ac'.conns, hfifo f hvf⟩
+    · rw [hfifo2 f hvf]; exact h.fifo_all f
+  · -- a_log
+    intro e he
+    obtain ⟨op, c, g, d, r1, r2, r3, r4, r5, r6, r7, r8, r9, r10, r11, r12, r13⟩ := h.a_log e he
+    refine ⟨op, c, g, d, r1, r2, r3, r4, by show g < n'.fwds.length; omega, by show e.epoch < n'.fwds.length; omega,
+      r7, r8, r9, r10, r11, r12, ?_⟩
+    intro cv hc; simp only [hcv] at hc; exact r13 cv hc
+  · -- pend
+    intro a1 va1 ac1 op hva1 hac1 hop
+    by_cases ho : a1 = a
+    · subst ho; rw [hsa] at hva1; cases hva1
+      simp only [Option.some.injEq] at hac1; subst hac1
+      obtain ⟨⟨vp, hvp, hvpa⟩, r2, r3⟩ := hpend op hop
+      exact ⟨⟨vp, by rw [hso _ (hna _ vp hvp hvpa)]; exact hvp, hvpa⟩, r2, r3⟩
+    · rw [hso a1 ho] at hva1
+      obtain ⟨⟨vp, hvp, hvpa⟩, r2, r3⟩ := h.pend a1 va1 ac1 op hva1 hac1 hop
+      refine ⟨⟨vp, by rw [hso _ (hna _ vp hvp hvpa)]; exact hvp, hvpa⟩, ?_, ?_⟩
+      · show 0 < accCalls' a1; rw [hcalls2 a1 ho]; exact r2
+      · intro e he hea; show e.serial + 1 < accCalls' a1; rw [hcalls2 a1 ho]; exact r3 e he hea
+  · intro e he; have := h.ser_lt e he; have := hcalls e.acc; show e.serial < accCalls' e.acc; omega
   · exact h.ser_mono
-  · intro e he op c v heo hec hv hch
-    obtain ⟨op', _, _, q1, _, _, _, _, _, _, q8, _⟩ := h.a_log e he
-    rw [heo] at q1; cases q1
-    rw [hso _ q8] at hv; exact h.peer_b e he op c v heo hec hv hch
+  · -- peer_b
+    intro e he op c v heo hec hv hch
+    by_cases ho : op.peer = a
+    · rw [ho, hsa] at hv; cases hv
+      simp only at hch; rw [hvch] at hch; cases hch
+    · rw [hso _ ho] at hv; exact h.peer_b e he op c v heo hec hv hch
   · exact h.con_ok
-  · intro o v hv hop
+  · exact h.con_nd
+  · -- con_pend
+    intro o v c hv hch hpe
     by_cases ho : o = a
-    · subst ho; rw [hsa] at hv; cases hv; exact h.o_fwd o va hva hop
-    · rw [hso o ho] at hv; exact h.o_fwd o v hv hop
+    · subst ho; rw [hsa] at hv; cases hv
+      simp only at hch; rw [hvch] at hch; cases hch
+    · rw [hso o ho] at hv; exact h.con_pend o v c hv hch hpe
   · intro x hx; show x.1 < n'.chans.length; rw [hcl]; exact h.nat_lt x hx
+  · exact hnp
+  · intro e he; rw [hreg] at he; exact h.reg_nodef e he
+  · exact h.acc_nd
 
 theorem mem_simUnbind {tbl : List (Ep × String)} {name : String} {ep : Ep} {e : Ep × String}
     (h : e ∈ simUnbind tbl name ep) : e ∈ tbl := by
   unfold simUnbind at h; exact (List.mem_filter.mp h).1
+
+theorem mem_simUnbind_ne {tbl : List (Ep × String)} {name : String} {ep : Ep} {e : Ep × String}
+    (h : e ∈ simUnbind tbl name ep) : ¬ (e.1 = ep ∧ e.2 = name) := by
+  unfold simUnbind at h
+  have := (List.mem_filter.mp h).2
+  intro ⟨h1, h2⟩
+  simp [h1, h2] at this
 
 theorem lookup_simUnbind (tbl : List (Ep × String)) (name a : String) (ep k : Ep) (hne : name ≠ a)
     (h : tbl.lookup k = some a) : (simUnbind tbl name ep).lookup k = some a := by
@@ -513,17 +800,31 @@ theorem lookup_simUnbind (tbl : List (Ep × String)) (name a : String) (ep k : E
       · simp only [List.lookup_cons, hk']; exact ih h
       · exact ih h
 
+/-- the registry after a socket `p` gave up its binding: entries of the others stay -/
+theorem reg_after_unbind {tbl tbl' : List (Ep × String)} {p : String} {b : Ep}
+    (hreg : tbl' = (if b.isDefault then tbl else simUnbind tbl p b)) :
+    (∀ e ∈ tbl', e ∈ tbl) ∧ (∀ k o', o' ≠ p → tbl.lookup k = some o' → tbl'.lookup k = some o') := by
+  subst hreg
+  constructor
+  · intro e he; split at he
+    · exact he
+    · exact mem_simUnbind he
+  · intro k o' ho' hl; split
+    · exact hl
+    · exact lookup_simUnbind _ _ _ _ _ (Ne.symm ho') hl
+
 /-- **The hand-over** (`check_accept_queue` with an accept outstanding and a connection
     queued): the oldest queued channel goes to the accept's socket. -/
-theorem HInv.attach {a : String} {aep : Ep} {s : HS} (h : HInv a aep s)
-    (va : SockV) (ac : AccState) (op : AcceptOp) (c : Nat) (rest : List Nat) (vp : SockV) (cv0 : ChanV)
-    (hva : s.net.sv a = some va) (hac : va.acc = some ac) (hopen : va.isOpen = true)
+theorem HInv.attach {s : HS} (h : HInv s) (a : String)
+    (va : SockV) (ac : AccState) (op : AcceptOp) (c : Nat) (rest : List Nat) (vp : SockV) (cv0 : ChanV) (f : Nat)
+    (hva : s.net.sv a = some va) (hac : va.acc = some ac) (hopen : va.isOpen = true) (hvf : va.fwd = some f)
     (hop : ac.acceptOp = some op) (hconns : ac.conns = c :: rest)
-    (hvp : s.net.sv op.peer = some vp) (hcv0 : s.net.cv c = some cv0)
+    (hvp : s.net.sv op.peer = some vp) (hvpa : vp.acc = none) (hcv0 : s.net.cv c = some cv0)
     (n' : NetSt) (fw : List Pkt) (extra : String)
     (hcfg : n'.cfg = s.net.cfg) (hfw : n'.fwds.length = s.net.fwds.length + 1)
     (hcl : n'.chans.length = s.net.chans.length)
     (hreg : n'.reg.tcp = (if vp.bound.isDefault then s.net.reg.tcp else simUnbind s.net.reg.tcp op.peer vp.bound))
+    (hnp : 0 < n'.reg.nextPort)
     (hsv : ∀ o, n'.sv o = if o = op.peer then some ⟨true, va.bound, some s.net.fwds.length, some c, none, vp.acc⟩
                       else if o = a then some { va with acc := some { ac with conns := rest, acceptOp := none } }
                       else s.net.sv o)
@@ -531,37 +832,27 @@ theorem HInv.attach {a : String} {aep : Ep} {s : HS} (h : HInv a aep s)
     (hft : ∀ g, n'.fwdTarget g = if g = s.net.fwds.length then some op.peer else if vp.fwd = some g then none else s.net.fwdTarget g)
     (hextra : extra = if op.withEp then "ep=" ++ cv0.vis0.toString else "")
     (hfwd : ∀ q ∈ fw, q.ty = .err ∨ (q.ty = .synack ∧ q.chan = some c ∧ q.hops = cv0.hops0)) :
-    HInv a aep { s with net := n', bag := s.bag ++ fw,
-                        accLog := s.accLog ++ [{ serial := s.accCalls - 1, op := some op, compl := { h := op.h, ec := .ok, extra := extra },
-                                                 cid := some c, fwd := some s.net.fwds.length }] } := by
-  obtain ⟨hpa, _, hcalls, hser⟩ := h.pend va ac op hva hac hop
-  obtain ⟨hvb, hvf, hvt, hvr⟩ := h.a_open va hva hopen
-  have hvch : va.chan = none := by
-    obtain ⟨va0, _, h1, _, h3⟩ := h.a_ex
-    rw [hva] at h1; cases h1; exact h3
-  have hL := h.fwd0
-  obtain ⟨dropped, hfifo, hdr⟩ := h.fifo va ac hva hac
-  have hdr' := hdr hopen; subst hdr'
+    HInv { s with net := n', bag := s.bag ++ fw,
+                  accLog := s.accLog ++ [{ acc := a, epoch := f, lep := va.bound, serial := s.accCalls a - 1, op := some op,
+                                           compl := { h := op.h, ec := .ok, extra := extra },
+                                           cid := some c, fwd := some s.net.fwds.length }] } := by
+  obtain ⟨_, hcalls, hser⟩ := h.pend a va ac op hva hac hop
+  have hpa : op.peer ≠ a := by
+    intro hpa; rw [hpa, hva] at hvp; cases hvp; rw [hac] at hvpa; cases hvpa
+  obtain ⟨hfl, hvt⟩ := h.s_fwd a va f hva hvf
+  have hvch : va.chan = none := h.a_chan a va ac hva hac
+  have hfifo := h.fifo a va ac f hva hac hvf
   rw [hconns] at hfifo
-  simp only [List.append_nil] at hfifo
   -- the channel handed over has not been accepted before
-  have hcnew : ∀ e ∈ s.accLog, e.cid ≠ some c := by
-    intro e he hec
-    have hnd := h.syn_nd
-    rw [hfifo] at hnd
-    have : c ∈ s.accLog.filterMap (·.cid) := List.mem_filterMap.mpr ⟨e, he, hec⟩
-    have := (List.nodup_append.mp hnd).2.2 c this c (by simp)
-    exact this rfl
-  have hcsyn : c ∈ s.synLog := by rw [hfifo]; simp
+  have hcnew : ∀ e ∈ s.accLog, e.cid ≠ some c :=
+    h.not_acc_of_queued a va ac f c hva hac hvf (by rw [hconns]; simp)
+  have hcsyn : (f, c) ∈ s.synLog := h.queued_syn a va ac f c hva hac hvf (by rw [hconns]; simp)
+  have hcsyn' : c ∈ s.synLog.map (·.2) := List.mem_map.mpr ⟨_, hcsyn, rfl⟩
   have hsa : n'.sv a = some { va with acc := some { ac with conns := rest, acceptOp := none } } := by
     rw [hsv, if_neg (Ne.symm hpa), if_pos rfl]
   have hsp : n'.sv op.peer = some ⟨true, va.bound, some s.net.fwds.length, some c, none, vp.acc⟩ := by
     rw [hsv, if_pos rfl]
   have hso : ∀ o, o ≠ a → o ≠ op.peer → n'.sv o = s.net.sv o := fun o h1 h2 => by rw [hsv, if_neg h2, if_neg h1]
-  have hvpf0 : vp.fwd ≠ some 0 := by
-    intro h0
-    have := (h.s_fwd op.peer vp 0 hvp h0).2
-    rw [hvt] at this; exact hpa (Option.some.inj this).symm
   -- views of channels: only `hops1` of `c` changes
   have hcvx : ∀ d cv, n'.cv d = some cv → ∃ cv1, s.net.cv d = some cv1 ∧ cv.ep0 = cv1.ep0 ∧ cv.ep1 = cv1.ep1
       ∧ cv.vis0 = cv1.vis0 ∧ cv.vis1 = cv1.vis1 ∧ cv.hops0 = cv1.hops0 ∧ (d ≠ c → cv = cv1) := by
@@ -580,139 +871,181 @@ theorem HInv.attach {a : String} {aep : Ep} {s : HS} (h : HInv a aep s)
       exact ⟨_, rfl, rfl, rfl, rfl, fun hn => absurd rfl hn⟩
     · exact ⟨cv1, hd, rfl, rfl, rfl, fun _ => rfl⟩
   have hdl : c < s.dialLog.length := by rw [h.dial_len]; exact cv_lt hcv0
-  have hq0 := h.hops1_q c cv0 hcv0 hcnew
+  have hdc : s.dialLog[c]? = some s.dialLog[c] := List.getElem?_eq_getElem hdl
+  have hdep : s.dialLog[c].epoch = f := h.syn_ep (f, c) hcsyn _ hdc
+  obtain ⟨hdls, hdtg, _⟩ := h.d_acc _ (List.getElem_mem hdl) a va hva (by rw [hdep]; exact hvf)
+  have hq0 := h.hops1_q c cv0 _ hcv0 hdc hcnew
+  obtain ⟨hregm, hregl⟩ := reg_after_unbind hreg
   constructor
-  · exact ⟨_, _, hsa, rfl, hvch⟩
-  · intro va1 hva1 _
-    rw [hsa] at hva1; cases hva1
-    refine ⟨hvb, hvf, ?_, ?_⟩
-    · rw [hft, if_neg (by omega), if_neg hvpf0]; exact hvt
-    · rw [hreg]; split
-      · exact hvr
-      · exact lookup_simUnbind _ _ _ _ _ hpa hvr
-  · intro va1 ac1 hva1 _ hcl'
-    rw [hsa] at hva1; cases hva1
-    simp [hopen] at hcl'
-  · intro e he hea
-    rw [hreg] at he
-    split at he
-    · exact h.reg_a e he hea
-    · exact h.reg_a e (mem_simUnbind he) hea
-  · intro o v hne hv
+  · -- a_chan
+    intro a1 va1 ac1 hva1 hac1
+    by_cases ho : a1 = op.peer
+    · subst ho; rw [hsp] at hva1; cases hva1; simp only at hac1; rw [hvpa] at hac1; cases hac1
+    · by_cases hoa : a1 = a
+      · subst hoa; rw [hsa] at hva1; cases hva1; exact hvch
+      · rw [hso a1 hoa ho] at hva1; exact h.a_chan a1 va1 ac1 hva1 hac1
+  · -- a_closed
+    intro a1 va1 ac1 hva1 hac1 hcl'
+    by_cases ho : a1 = op.peer
+    · subst ho; rw [hsp] at hva1; cases hva1; cases hcl'
+    · by_cases hoa : a1 = a
+      · subst hoa; rw [hsa] at hva1; cases hva1; simp only at hcl'; rw [hopen] at hcl'; cases hcl'
+      · rw [hso a1 hoa ho] at hva1; exact h.a_closed a1 va1 ac1 hva1 hac1 hcl'
+  · -- a_lis
+    intro a1 va1 ac1 hva1 hac1 hq
+    by_cases ho : a1 = op.peer
+    · subst ho; rw [hsp] at hva1; cases hva1; simp only at hac1; rw [hvpa] at hac1; cases hac1
+    · by_cases hoa : a1 = a
+      · subst hoa; rw [hsa] at hva1; cases hva1
+        simp only [Option.some.injEq] at hac1; subst hac1
+        exact h.a_lis a1 va ac hva hac hq
+      · rw [hso a1 hoa ho] at hva1; exact h.a_lis a1 va1 ac1 hva1 hac1 hq
+  · -- reg_own
+    intro e he v ac1 hv hac1
+    have he' := hregm e he
+    by_cases ho : e.2 = op.peer
+    · rw [ho, hsp] at hv; cases hv; simp only at hac1; rw [hvpa] at hac1; cases hac1
+    · by_cases hoa : e.2 = a
+      · rw [hoa, hsa] at hv; cases hv
+        exact h.reg_own e he' va ac (by rw [hoa]; exact hva) hac
+      · rw [hso _ hoa ho] at hv; exact h.reg_own e he' v ac1 hv hac1
+  · -- bound_reg
+    intro o v hv hch
     by_cases ho : o = op.peer
-    · subst ho; rw [hsp] at hv; cases hv; exact h.o_acc _ vp hne hvp
-    · rw [hso o hne ho] at hv; exact h.o_acc o v hne hv
-  · show 0 < n'.fwds.length; omega
+    · subst ho; rw [hsp] at hv; cases hv; cases hch
+    · have hv1 : ∃ v1, s.net.sv o = some v1 ∧ v1.bound = v.bound ∧ v1.chan = none := by
+        by_cases hoa : o = a
+        · subst hoa; rw [hsa] at hv; cases hv; exact ⟨va, hva, rfl, hvch⟩
+        · rw [hso o hoa ho] at hv; exact ⟨v, hv, rfl, hch⟩
+      obtain ⟨v1, hv1, hb1, hc1⟩ := hv1
+      rcases h.bound_reg o v1 hv1 hc1 with hb | hb
+      · left; rw [← hb1]; exact hb
+      · right; rw [← hb1]; exact hregl _ _ ho hb
   · show s.dialLog.length = n'.chans.length; rw [hcl]; exact h.dial_len
   · -- chan_ok
     intro d cv dd hc hd
     obtain ⟨cv1, hc1, e0, e1, e2, e3, e4, _⟩ := hcvx d cv hc
-    obtain ⟨q1, q2, q3, q4, q5, q6, q7, f0, r1, r2, r3, r4⟩ := h.chan_ok d cv1 dd hc1 hd
-    refine ⟨q1, q2, by rw [e0]; exact q3, by rw [e1]; exact q4, by rw [e3]; exact q5, by rw [e0]; exact q6,
-      by rw [e2, e0]; exact q7, f0, r1, by show f0 < n'.fwds.length; omega, r3, ?_⟩
-    show cv.hops0 = route0 n'.cfg aep cv ++ [fwdHop f0]
-    rw [hcfg, e4, r4]; simp [route0, e0]
+    obtain ⟨q1, q2, q3, q4, q5, q6, q7, q8, f0, r1, r2, r3, r4⟩ := h.chan_ok d cv1 dd hc1 hd
+    refine ⟨q1, by rw [e0]; exact q2, by rw [e1]; exact q3, by rw [e3]; exact q4, by rw [e0]; exact q5, q6,
+      by rw [e2, e0]; exact q7, by show dd.epoch < n'.fwds.length; omega, f0, r1,
+      by show f0 < n'.fwds.length; omega, r3, ?_⟩
+    show cv.hops0 = route0 n'.cfg cv ++ [fwdHop f0]
+    rw [hcfg, e4, r4]; simp [route0, e0, e1]
   · -- hops1_q
-    intro d cv hc hq
-    have hdc : d ≠ c := by
-      intro hdc; subst hdc
+    intro d cv dd hc hd hq
+    have hdc' : d ≠ c := by
+      intro hdc'; subst hdc'
       exact hq _ (List.mem_append_right _ (List.mem_singleton.mpr rfl)) rfl
     obtain ⟨cv1, hc1, _, _, _, _, _, e5⟩ := hcvx d cv hc
-    rw [e5 hdc]
-    show cv1.hops1 = route1 n'.cfg aep cv1 ++ [fwdHop 0]
+    rw [e5 hdc']
+    show cv1.hops1 = route1 n'.cfg cv1 ++ [fwdHop dd.epoch]
     rw [hcfg]
-    exact h.hops1_q d cv1 hc1 (fun e he => hq e (List.mem_append_left _ he))
+    exact h.hops1_q d cv1 dd hc1 hd (fun e he => hq e (List.mem_append_left _ he))
   · -- hops1_a
     intro d cv e hc he hec
-    show ∃ g, e.fwd = some g ∧ cv.hops1 = route1 n'.cfg aep cv ++ [fwdHop g]
+    show ∃ g, e.fwd = some g ∧ cv.hops1 = route1 n'.cfg cv ++ [fwdHop g]
     rw [hcfg]
     rcases List.mem_append.mp he with he | he
-    · have hdc : d ≠ c := by intro hdc; rw [hdc] at hec; exact hcnew e he hec
+    · have hdc' : d ≠ c := by intro hdc'; rw [hdc'] at hec; exact hcnew e he hec
       obtain ⟨cv1, hc1, _, _, _, _, _, e5⟩ := hcvx d cv hc
-      rw [e5 hdc]; exact h.hops1_a d cv1 e hc1 he hec
+      rw [e5 hdc']; exact h.hops1_a d cv1 e hc1 he hec
     · rw [List.mem_singleton] at he; subst he
       simp only [Option.some.injEq] at hec; subst hec
       rw [hcv, if_pos rfl] at hc; cases hc
       refine ⟨_, rfl, ?_⟩
       simp only [route1]
       rw [hq0, List.dropLast_concat]; rfl
+  · -- d_acc
+    intro d hd a1 va1 hva1 hvf1
+    obtain ⟨hdlt, _⟩ := h.dial_lt d hd
+    by_cases ho : a1 = op.peer
+    · subst ho; rw [hsp] at hva1; cases hva1
+      simp only [Option.some.injEq] at hvf1; omega
+    · by_cases hoa : a1 = a
+      · subst hoa; rw [hsa] at hva1; cases hva1
+        obtain ⟨r1, r2, _⟩ := h.d_acc d hd a1 va hva hvf1
+        exact ⟨r1, r2, rfl⟩
+      · rw [hso a1 hoa ho] at hva1; exact h.d_acc d hd a1 va1 hva1 hvf1
   · -- idle
-    intro o v hne hv hch
+    intro o v hv hch
     by_cases ho : o = op.peer
     · subst ho; rw [hsp] at hv; cases hv; cases hch
-    · rw [hso o hne ho] at hv; exact h.idle o v hne hv hch
-  · -- idle_b
-    intro o v va1 hne hv hva1 _ hch
-    by_cases ho : o = op.peer
-    · subst ho; rw [hsp] at hv; cases hv; cases hch
-    · rw [hso o hne ho] at hv; exact h.idle_b o v va hne hv hva hopen hch
+    · by_cases hoa : o = a
+      · subst hoa; rw [hsa] at hv; cases hv; exact h.idle o va hva hvch
+      · rw [hso o hoa ho] at hv; exact h.idle o v hv hch
   · -- conn
-    intro o v c' hne hv hch
+    intro o v c' hv hch
     by_cases ho : o = op.peer
     · subst ho; rw [hsp] at hv; cases hv
       simp only [Option.some.injEq] at hch; subst hch
       obtain ⟨cv, hcvn, _⟩ := hcvold c cv0 hcv0
-      refine ⟨cv, s.dialLog[c], hcvn, by rw [List.getElem?_eq_getElem hdl], Or.inr ⟨hvb, rfl, _, List.mem_append_right _ (List.mem_singleton.mpr rfl), rfl, rfl, rfl⟩⟩
-    · rw [hso o hne ho] at hv
-      obtain ⟨cv1, d, q1, q2, q3⟩ := h.conn o v c' hne hv hch
-      obtain ⟨cv, hcvn, e0, _⟩ := hcvold c' cv1 q1
-      refine ⟨cv, d, hcvn, q2, ?_⟩
-      rcases q3 with ⟨r1, r2, r3⟩ | ⟨r1, r2, e, he, r3⟩
-      · left; exact ⟨by rw [e0]; exact r1, r2, r3⟩
-      · right; exact ⟨r1, r2, e, List.mem_append_left _ he, r3⟩
+      refine ⟨cv, s.dialLog[c], hcvn, hdc, Or.inr ⟨hdtg, rfl, _, List.mem_append_right _ (List.mem_singleton.mpr rfl), rfl, rfl, rfl⟩⟩
+    · by_cases hoa : o = a
+      · subst hoa; rw [hsa] at hv; cases hv
+        simp only at hch; rw [hvch] at hch; cases hch
+      · rw [hso o hoa ho] at hv
+        obtain ⟨cv1, d, q1, q2, q3⟩ := h.conn o v c' hv hch
+        obtain ⟨cv, hcvn, e0, _⟩ := hcvold c' cv1 q1
+        refine ⟨cv, d, hcvn, q2, ?_⟩
+        rcases q3 with ⟨r1, r2, r3⟩ | ⟨r1, r2, e, he, r3⟩
+        · left; exact ⟨by rw [e0]; exact r1, r2, r3⟩
+        · right; exact ⟨r1, r2, e, List.mem_append_left _ he, r3⟩
   · -- s_fwd
-    intro o v f hv hf
-    show f < n'.fwds.length ∧ n'.fwdTarget f = some o
+    intro o v f1 hv hf
+    show f1 < n'.fwds.length ∧ n'.fwdTarget f1 = some o
     by_cases ho : o = op.peer
     · subst ho; rw [hsp] at hv; cases hv
       simp only [Option.some.injEq] at hf; subst hf
       exact ⟨by omega, by rw [hft, if_pos rfl]⟩
-    · have hv1 : ∃ v1, s.net.sv o = some v1 ∧ v1.fwd = some f := by
+    · have hv1 : ∃ v1, s.net.sv o = some v1 ∧ v1.fwd = some f1 := by
         by_cases hoa : o = a
         · subst hoa; rw [hsa] at hv; cases hv; exact ⟨va, hva, hf⟩
         · rw [hso o hoa ho] at hv; exact ⟨v, hv, hf⟩
       obtain ⟨v1, hv1, hf1⟩ := hv1
-      obtain ⟨q1, q2⟩ := h.s_fwd o v1 f hv1 hf1
+      obtain ⟨q1, q2⟩ := h.s_fwd o v1 f1 hv1 hf1
       refine ⟨by omega, ?_⟩
       rw [hft, if_neg (by omega), if_neg ?_]; exact q2
       intro hvf'
-      have := (h.s_fwd op.peer vp f hvp hvf').2
+      have := (h.s_fwd op.peer vp f1 hvp hvf').2
       rw [q2] at this; exact ho (Option.some.inj this)
   · -- f_own
-    intro f o hfo
+    intro f1 o hfo
     rw [hft] at hfo
     split at hfo
     · rename_i hfL; cases hfo; exact ⟨_, hsp, by rw [hfL]⟩
     · split at hfo
       · cases hfo
       · rename_i hn1 hn2
-        obtain ⟨v, q1, q2⟩ := h.f_own f o hfo
+        obtain ⟨v, q1, q2⟩ := h.f_own f1 o hfo
         by_cases ho : o = op.peer
         · subst ho; rw [hvp] at q1; cases q1; exact absurd q2 hn2
         · by_cases hoa : o = a
           · subst hoa; rw [hva] at q1; cases q1; exact ⟨_, hsa, q2⟩
           · exact ⟨v, by rw [hso o hoa ho]; exact q1, q2⟩
   · -- d_live
-    intro d hd o v f hv hf hdf
-    have hdf0 : f < s.net.fwds.length ∧ f ≠ 0 := by
-      obtain ⟨i, hi, hdi⟩ := List.getElem_of_mem hd
-      have hi' : i < s.net.chans.length := by rw [← h.dial_len]; exact hi
-      obtain ⟨cvi, hcvi⟩ := cv_of_lt hi'
-      have hdi' : s.dialLog[i]? = some d := by rw [List.getElem?_eq_getElem hi, hdi]
-      obtain ⟨_, _, _, _, _, _, _, f0, r1, r2, r3, _⟩ := h.chan_ok i cvi d hcvi hdi'
-      rw [hdf] at r1; cases r1; exact ⟨r2, r3⟩
+    intro d hd o v f1 hv hf hdf
+    obtain ⟨_, f0, r1, r2, _⟩ := h.dial_lt d hd
+    rw [hdf] at r1; cases r1
     by_cases ho : o = op.peer
     · subst ho; rw [hsp] at hv; cases hv
       simp only [Option.some.injEq] at hf; omega
     · by_cases hoa : o = a
       · subst hoa; rw [hsa] at hv; cases hv
-        rw [hvf] at hf; cases hf; exact absurd rfl hdf0.2
-      · rw [hso o hoa ho] at hv; exact h.d_live d hd o v f hv hf hdf
+        have := h.d_live d hd o va f1 hva hf hdf
+        rw [hvch] at this; cases this
+      · rw [hso o hoa ho] at hv; exact h.d_live d hd o v f1 hv hf hdf
+  · -- o_fwd
+    intro o v hv hop'
+    by_cases ho : o = op.peer
+    · subst ho; rw [hsp] at hv; cases hv; rfl
+    · by_cases hoa : o = a
+      · subst hoa; rw [hsa] at hv; cases hv; exact h.o_fwd o va hva hop'
+      · rw [hso o hoa ho] at hv; exact h.o_fwd o v hv hop'
   · -- b_syn
     intro pk hpk hty
     rcases List.mem_append.mp hpk with hpk | hpk
     · obtain ⟨c', cv1, q1, q2, q3, q4⟩ := h.b_syn pk hpk hty
-      have hcc : c' ≠ c := by intro hcc; subst hcc; exact q3 hcsyn
+      have hcc : c' ≠ c := by intro hcc; subst hcc; exact q3 hcsyn'
       obtain ⟨cv, hcvn, _, _, _, e5⟩ := hcvold c' cv1 q2
       exact ⟨c', cv, q1, hcvn, q3, by rw [e5 hcc]; exact q4⟩
     · rcases hfwd pk hpk with hq | hq
@@ -742,111 +1075,184 @@ theorem HInv.attach {a : String} {aep : Ep} {s : HS} (h : HInv a aep s)
       · rw [hq] at hty; cases hty
       · obtain ⟨cv, hcvn, _, e4, _⟩ := hcvold c cv0 hcv0
         exact ⟨c, cv, hq.2.1, hcvn, by rw [e4]; exact hq.2.2, _, List.mem_append_right _ (List.mem_singleton.mpr rfl), rfl⟩
-  · intro c' hc'; show c' < n'.chans.length; rw [hcl]; exact h.syn_lt c' hc'
+  · -- syn_lt
+    intro x hx
+    obtain ⟨r1, r2⟩ := h.syn_lt x hx
+    exact ⟨by show x.2 < n'.chans.length; rw [hcl]; exact r1, by show x.1 < n'.fwds.length; omega⟩
   · exact h.syn_nd
+  · exact h.syn_ep
   · -- fifo
-    intro va1 ac1 hva1 hac1
-    rw [hsa] at hva1; cases hva1
-    simp only [Option.some.injEq] at hac1; subst hac1
-    refine ⟨[], ?_, fun _ => rfl⟩
-    show s.synLog = List.filterMap (·.cid) (s.accLog ++ [_]) ++ [] ++ rest
-    rw [hfifo]; simp [List.filterMap_append]
+    intro a1 va1 ac1 f1 hva1 hac1 hvf1
+    show synAtL s.synLog f1 = (accAtL (s.accLog ++ [_]) f1).filterMap (·.cid) ++ ac1.conns
+    rw [accAtL_append]
+    by_cases ho : a1 = op.peer
+    · subst ho; rw [hsp] at hva1; cases hva1; simp only at hac1; rw [hvpa] at hac1; cases hac1
+    · by_cases hoa : a1 = a
+      · subst hoa; rw [hsa] at hva1; cases hva1
+        simp only [Option.some.injEq] at hac1; subst hac1
+        simp only at hvf1; rw [hvf] at hvf1; cases hvf1
+        rw [accAtL_single_same ⟨a1, f, _, _, _, _, _, _⟩, hfifo]
+        simp [List.filterMap_append]
+      · rw [hso a1 hoa ho] at hva1
+        have hne : f ≠ f1 := by
+          intro hff; subst hff
+          have h1 := (h.s_fwd a1 va1 f hva1 hvf1).2
+          rw [hvt] at h1; exact hoa (Option.some.inj h1).symm
+        rw [accAtL_single_other _ _ (by exact hne), List.append_nil]
+        exact h.fifo a1 va1 ac1 f1 hva1 hac1 hvf1
+  · -- fifo_all
+    intro f1
+    show ∃ dropped, synAtL s.synLog f1 = (accAtL (s.accLog ++ [_]) f1).filterMap (·.cid) ++ dropped
+    rw [accAtL_append]
+    by_cases hff : f = f1
+    · subst hff
+      refine ⟨rest, ?_⟩
+      rw [accAtL_single_same ⟨a, f, _, _, _, _, _, _⟩, hfifo]
+      simp [List.filterMap_append]
+    · rw [accAtL_single_other _ _ (by exact hff), List.append_nil]
+      exact h.fifo_all f1
   · -- a_log
     intro e he
     rcases List.mem_append.mp he with he | he
-    · obtain ⟨op', c', g, q1, q2, q3, q4, q5, q6, q7, q8, q9⟩ := h.a_log e he
-      refine ⟨op', c', g, q1, q2, q3, q4, by show g < n'.fwds.length; omega, q6, q7, q8, ?_⟩
+    · obtain ⟨op', c', g, d, r1, r2, r3, r4, r5, r6, r7, r8, r9, r10, r11, r12, r13⟩ := h.a_log e he
+      refine ⟨op', c', g, d, r1, r2, r3, r4, by show g < n'.fwds.length; omega, by show e.epoch < n'.fwds.length; omega,
+        r7, r8, r9, r10, r11, r12, ?_⟩
       intro cv hc
       obtain ⟨cv1, hc1, _, _, e2, _⟩ := hcvx c' cv hc
-      rw [e2]; exact q9 cv1 hc1
+      rw [e2]; exact r13 cv1 hc1
     · rw [List.mem_singleton] at he; subst he
-      refine ⟨op, c, s.net.fwds.length, rfl, rfl, rfl, by omega, by show _ < n'.fwds.length; omega, rfl, rfl, hpa, ?_⟩
+      refine ⟨op, c, s.net.fwds.length, s.dialLog[c], rfl, rfl, rfl, by show s.net.fwds.length ≠ f; omega,
+        by show _ < n'.fwds.length; omega, by show f < n'.fwds.length; omega, rfl, rfl, hdc, hdep, hdls.symm, hdtg.symm, ?_⟩
       intro cv hc
       rw [hcv, if_pos rfl] at hc; cases hc
       exact hextra
   · -- pend
-    intro va1 ac1 op1 hva1 hac1 hop1
-    rw [hsa] at hva1; cases hva1
-    simp only [Option.some.injEq] at hac1; subst hac1
-    cases hop1
+    intro a1 va1 ac1 op1 hva1 hac1 hop1
+    by_cases ho : a1 = op.peer
+    · subst ho; rw [hsp] at hva1; cases hva1; simp only at hac1; rw [hvpa] at hac1; cases hac1
+    · by_cases hoa : a1 = a
+      · subst hoa; rw [hsa] at hva1; cases hva1
+        simp only [Option.some.injEq] at hac1; subst hac1
+        cases hop1
+      · rw [hso a1 hoa ho] at hva1
+        obtain ⟨⟨vp1, hvp1, hvpa1⟩, r2, r3⟩ := h.pend a1 va1 ac1 op1 hva1 hac1 hop1
+        refine ⟨?_, r2, ?_⟩
+        · by_cases hp : op1.peer = op.peer
+          · exact ⟨⟨true, va.bound, some s.net.fwds.length, some c, none, vp.acc⟩, by rw [hp]; exact hsp, hvpa⟩
+          · have hpa1 : op1.peer ≠ a := by
+              intro hh; rw [hh, hva] at hvp1; cases hvp1; rw [hac] at hvpa1; cases hvpa1
+            exact ⟨vp1, by rw [hso _ hpa1 hp]; exact hvp1, hvpa1⟩
+        · intro e he hea
+          rcases List.mem_append.mp he with he | he
+          · exact r3 e he hea
+          · rw [List.mem_singleton] at he; subst he; exact absurd hea.symm hoa
   · -- ser_lt
     intro e he
     rcases List.mem_append.mp he with he | he
     · exact h.ser_lt e he
-    · rw [List.mem_singleton] at he; subst he; show s.accCalls - 1 < s.accCalls; omega
+    · rw [List.mem_singleton] at he; subst he; show s.accCalls a - 1 < s.accCalls a; omega
   · -- ser_mono
     show (s.accLog ++ [_]).Pairwise _
     rw [List.pairwise_append]
     refine ⟨h.ser_mono, List.pairwise_singleton _ _, ?_⟩
-    intro e he e' he'
+    intro e he e' he' hea
     rw [List.mem_singleton] at he'; subst he'
-    have := hser e he
-    show e.serial < s.accCalls - 1; omega
+    have := hser e he hea
+    show e.serial < s.accCalls a - 1; omega
   · -- peer_b
     intro e he op' c' v heo hec hv hch
     rcases List.mem_append.mp he with he | he
-    · obtain ⟨op1, _, _, q1, _, _, _, _, _, _, q8, _⟩ := h.a_log e he
-      rw [heo] at q1; cases q1
-      by_cases ho : op'.peer = op.peer
+    · by_cases ho : op'.peer = op.peer
       · rw [ho, hsp] at hv; cases hv
         simp only [Option.some.injEq] at hch; subst hch
         exact absurd hec (hcnew e he)
-      · rw [hso _ q8 ho] at hv; exact h.peer_b e he op' c' v heo hec hv hch
+      · have hpa' : op'.peer ≠ a := by
+          intro hh; rw [hh, hsa] at hv; cases hv
+          simp only at hch; rw [hvch] at hch; cases hch
+        rw [hso _ hpa' ho] at hv; exact h.peer_b e he op' c' v heo hec hv hch
     · rw [List.mem_singleton] at he; subst he
       simp only [Option.some.injEq] at heo hec; subst heo; subst hec
       rw [hsp] at hv; cases hv
-      exact ⟨hvb, rfl⟩
+      exact ⟨rfl, rfl⟩
   · -- con_ok
     intro k hk
-    obtain ⟨c', d, q1, q2, q3, e, he, q4⟩ := h.con_ok k hk
-    exact ⟨c', d, q1, q2, q3, e, List.mem_append_left _ he, q4⟩
-  · -- o_fwd
-    intro o v hv hop'
+    obtain ⟨c', d, q1, q2, q3, q4⟩ := h.con_ok k hk
+    refine ⟨c', d, q1, q2, q3, ?_⟩
+    intro hke
+    obtain ⟨e, he, q5⟩ := q4 hke
+    exact ⟨e, List.mem_append_left _ he, q5⟩
+  · exact h.con_nd
+  · -- con_pend
+    intro o v c' hv hch hpe
     by_cases ho : o = op.peer
-    · subst ho; rw [hsp] at hv; cases hv; rfl
+    · subst ho; rw [hsp] at hv; cases hv; cases hpe
     · by_cases hoa : o = a
-      · subst hoa; rw [hsa] at hv; cases hv; exact h.o_fwd o va hva hop'
-      · rw [hso o hoa ho] at hv; exact h.o_fwd o v hv hop'
+      · subst hoa; rw [hsa] at hv; cases hv
+        simp only at hch; rw [hvch] at hch; cases hch
+      · rw [hso o hoa ho] at hv; exact h.con_pend o v c' hv hch hpe
   · intro x hx; show x.1 < n'.chans.length; rw [hcl]; exact h.nat_lt x hx
+  · exact hnp
+  · intro e he; exact h.reg_nodef e (hregm e he)
+  · -- acc_nd
+    show ((s.accLog ++ [_]).map AccDone.cid).Nodup
+    rw [List.map_append, List.nodup_append]
+    refine ⟨h.acc_nd, by simp, ?_⟩
+    intro x hx y hy
+    simp only [List.map_cons, List.map_nil, List.mem_singleton] at hy
+    subst hy
+    obtain ⟨e, he, hex⟩ := List.mem_map.mp hx
+    intro hxy; rw [← hex] at hxy
+    exact hcnew e he hxy
 
-/-- accepted channels have arrived, arrived channels exist -/
-theorem HInv.acc_cid_lt {a : String} {aep : Ep} {s : HS} (h : HInv a aep s) (e : AccDone) (he : e ∈ s.accLog)
-    (c : Nat) (hc : e.cid = some c) : c < s.net.chans.length := by
-  obtain ⟨va, ac, h1, h2, _⟩ := h.a_ex
-  obtain ⟨dropped, hf, _⟩ := h.fifo va ac h1 h2
-  apply h.syn_lt
-  rw [hf]
-  have : c ∈ s.accLog.filterMap (·.cid) := List.mem_filterMap.mpr ⟨e, he, hc⟩
-  simp [this]
+theorem mem_of_lookup {α β : Type} [BEq α] [LawfulBEq α] (l : List (α × β)) (k : α) (v : β)
+    (h : l.lookup k = some v) : (k, v) ∈ l := by
+  induction l with
+  | nil => simp [List.lookup] at h
+  | cons y ys ih =>
+    obtain ⟨k₀, v₀⟩ := y
+    simp only [List.lookup_cons] at h
+    cases hk : (k == k₀)
+    · simp only [hk] at h; exact List.mem_cons_of_mem _ (ih h)
+    · simp only [hk] at h; cases h
+      have := eq_of_beq hk; subst this; exact List.mem_cons_self
 
-/-- **A connect that finds the acceptor listening**: a new channel, a SYN, the dial record. -/
-theorem HInv.dial {a : String} {aep : Ep} {s : HS} (h : HInv a aep s) (o : String) (hoa : o ≠ a)
-    (v va : SockV) (ac : AccState) (hv : s.net.sv o = some v) (hch : v.chan = none) (hopn : v.isOpen = true)
-    (hva : s.net.sv a = some va) (hac : va.acc = some ac) (hql : 0 < ac.queueLimit)
+theorem ep_ne_default {e : Ep} (h : e.isDefault = false) : e ≠ {} := by
+  intro he; subst he; simp [Ep.isDefault] at h
+
+/-- **A connect that finds an acceptor listening**: a new channel, a SYN, the dial record. -/
+theorem HInv.dial {s : HS} (h : HInv s) (o a : String)
+    (v va : SockV) (ac : AccState) (target : Ep) (f : Nat)
+    (hv : s.net.sv o = some v) (hvacc : v.acc = none) (hch : v.chan = none) (hopn : v.isOpen = true)
+    (hva : s.net.sv a = some va) (hac : va.acc = some ac) (hql : 0 < ac.queueLimit) (hvf : va.fwd = some f)
+    (hlook : s.net.reg.tcp.lookup target = some a)
     (hh : Nat) (n' : NetSt) (syn : Pkt)
-    (hcfg : n'.cfg = s.net.cfg) (hreg : n'.reg.tcp = s.net.reg.tcp) (hfw : n'.fwds.length = s.net.fwds.length)
+    (hcfg : n'.cfg = s.net.cfg) (hreg : n'.reg.tcp = s.net.reg.tcp) (hnp : 0 < n'.reg.nextPort)
+    (hfw : n'.fwds.length = s.net.fwds.length)
     (hft : ∀ g, n'.fwdTarget g = s.net.fwdTarget g)
     (hcl : n'.chans.length = s.net.chans.length + 1)
     (hsv : ∀ o', n'.sv o' = if o' = o then some { v with chan := some s.net.chans.length, connectH := some hh } else s.net.sv o')
     (hcv : ∀ d, n'.cv d = if d = s.net.chans.length then
-              some ⟨s.net.cfg.outRoute aep.addr ++ s.net.cfg.netRoute v.bound.addr aep.addr ++ s.net.incomingRoute v.bound v.fwd,
-                    s.net.cfg.outRoute v.bound.addr ++ s.net.cfg.netRoute v.bound.addr aep.addr ++ s.net.incomingRoute aep (some 0),
-                    v.bound, aep, v.bound, aep⟩
+              some ⟨s.net.cfg.outRoute target.addr ++ s.net.cfg.netRoute v.bound.addr target.addr ++ s.net.incomingRoute v.bound v.fwd,
+                    s.net.cfg.outRoute v.bound.addr ++ s.net.cfg.netRoute v.bound.addr target.addr ++ s.net.incomingRoute target (some f),
+                    v.bound, target, v.bound, target⟩
             else s.net.cv d)
     (hsyn : syn.ty = .syn ∧ syn.chan = some s.net.chans.length
-              ∧ syn.hops = s.net.cfg.outRoute v.bound.addr ++ s.net.cfg.netRoute v.bound.addr aep.addr ++ s.net.incomingRoute aep (some 0)) :
-    HInv a aep { s with net := n', bag := s.bag ++ [syn],
-                        dialLog := s.dialLog ++ [⟨s.net.chans.length, o, aep, v.bound, v.fwd⟩] } := by
-  have hopen : va.isOpen = true := by
-    cases hvo : va.isOpen with
-    | true => rfl
-    | false => have := (h.a_closed va ac hva hac hvo).1; omega
-  obtain ⟨hvb, hvf, hvt, hvr⟩ := h.a_open va hva hopen
-  obtain ⟨f, hf⟩ := Option.isSome_iff_exists.mp (h.o_fwd o v hv hopn)
-  obtain ⟨hfl, hftg⟩ := h.s_fwd o v f hv hf
-  have hf0 : f ≠ 0 := by
+              ∧ syn.hops = s.net.cfg.outRoute v.bound.addr ++ s.net.cfg.netRoute v.bound.addr target.addr ++ s.net.incomingRoute target (some f)) :
+    HInv { s with net := n', bag := s.bag ++ [syn],
+                  dialLog := s.dialLog ++ [⟨s.net.chans.length, o, target, v.bound, v.fwd, a, f⟩] } := by
+  have hoa : o ≠ a := by
+    intro hoa; subst hoa; rw [hva] at hv; cases hv; rw [hac] at hvacc; cases hvacc
+  have hvb : va.bound = target := h.reg_own (target, a) (mem_of_lookup _ _ _ hlook) va ac hva hac
+  have htd : target.isDefault = false := by rw [← hvb]; exact h.a_lis a va ac hva hac hql
+  obtain ⟨hfal, hvt⟩ := h.s_fwd a va f hva hvf
+  obtain ⟨f0, hf⟩ := Option.isSome_iff_exists.mp (h.o_fwd o v hv hopn)
+  obtain ⟨hfl, hftg⟩ := h.s_fwd o v f0 hv hf
+  have hf0 : f0 ≠ f := by
     intro h0; subst h0; rw [hvt] at hftg; exact hoa (Option.some.inj hftg).symm
-  have hvba : v.bound ≠ aep := h.idle_b o v va hoa hv hva hopen hch
+  have hvba : v.bound ≠ target := by
+    rcases h.bound_reg o v hv hch with hb | hb
+    · rw [hb]; exact (ep_ne_default htd).symm
+    · intro hbt; rw [hbt, hlook] at hb; exact hoa (Option.some.inj hb).symm
   have hsa : n'.sv a = s.net.sv a := by rw [hsv, if_neg (Ne.symm hoa)]
   have hso : ∀ o', o' ≠ o → n'.sv o' = s.net.sv o' := fun o' ho' => by rw [hsv, if_neg ho']
   have hso' : n'.sv o = some { v with chan := some s.net.chans.length, connectH := some hh } := by rw [hsv, if_pos rfl]
@@ -857,7 +1263,7 @@ theorem HInv.dial {a : String} {aep : Ep} {s : HS} (h : HInv a aep s) (o : Strin
   have hcvnew : ∀ d cv, n'.cv d = some cv → d ≠ s.net.chans.length → s.net.cv d = some cv := by
     intro d cv hd hne; rw [hcv, if_neg hne] at hd; exact hd
   have hdlen := h.dial_len
-  have hdold : ∀ d dd, d ≠ s.net.chans.length → (s.dialLog ++ [(⟨s.net.chans.length, o, aep, v.bound, v.fwd⟩ : Dial)])[d]? = some dd →
+  have hdold : ∀ (d : Nat) (dd : Dial), d ≠ s.net.chans.length → (s.dialLog ++ [(⟨s.net.chans.length, o, target, v.bound, v.fwd, a, f⟩ : Dial)])[d]? = some dd →
       s.dialLog[d]? = some dd := by
     intro d dd hne hd
     by_cases hlt : d < s.dialLog.length
@@ -867,39 +1273,54 @@ theorem HInv.dial {a : String} {aep : Ep} {s : HS} (h : HInv a aep s) (o : Strin
       cases hx : d - s.dialLog.length with
       | zero => omega
       | succ k => rw [hx] at hd; simp at hd
+  have hdkeep : ∀ (d : Nat) (dd : Dial), s.dialLog[d]? = some dd →
+      (s.dialLog ++ [(⟨s.net.chans.length, o, target, v.bound, v.fwd, a, f⟩ : Dial)])[d]? = some dd := by
+    intro d dd hd
+    have : d < s.dialLog.length := (List.getElem?_eq_some_iff.mp hd).1
+    rw [List.getElem?_append_left this]; exact hd
   have hnocid : ∀ e ∈ s.accLog, e.cid ≠ some s.net.chans.length := by
     intro e he hec
     have := h.acc_cid_lt e he _ hec; omega
+  have hz : s.net.chans.length - s.dialLog.length = 0 := by omega
   constructor
-  · obtain ⟨va0, ac0, h1, h2, h3⟩ := h.a_ex
-    exact ⟨va0, ac0, by rw [hsa]; exact h1, h2, h3⟩
-  · intro va1 hva1 hop1
-    rw [hsa] at hva1
-    obtain ⟨q1, q2, q3, q4⟩ := h.a_open va1 hva1 hop1
-    exact ⟨q1, q2, by rw [hft]; exact q3, by rw [hreg]; exact q4⟩
-  · intro va1 ac1 hva1 hac1 hcl1
-    rw [hsa] at hva1
-    obtain ⟨q1, q2, q3⟩ := h.a_closed va1 ac1 hva1 hac1 hcl1
-    exact ⟨q1, by rw [hft]; exact q2, q3⟩
-  · intro e he; rw [hreg] at he; exact h.reg_a e he
-  · intro o' v1 hne hv1
+  · -- a_chan
+    intro a1 va1 ac1 hva1 hac1
+    by_cases ho : a1 = o
+    · subst ho; rw [hso'] at hva1; cases hva1; simp only at hac1; rw [hvacc] at hac1; cases hac1
+    · rw [hso a1 ho] at hva1; exact h.a_chan a1 va1 ac1 hva1 hac1
+  · intro a1 va1 ac1 hva1 hac1 hcl1
+    by_cases ho : a1 = o
+    · subst ho; rw [hso'] at hva1; cases hva1; simp only at hac1; rw [hvacc] at hac1; cases hac1
+    · rw [hso a1 ho] at hva1; exact h.a_closed a1 va1 ac1 hva1 hac1 hcl1
+  · intro a1 va1 ac1 hva1 hac1 hq1
+    by_cases ho : a1 = o
+    · subst ho; rw [hso'] at hva1; cases hva1; simp only at hac1; rw [hvacc] at hac1; cases hac1
+    · rw [hso a1 ho] at hva1; exact h.a_lis a1 va1 ac1 hva1 hac1 hq1
+  · -- reg_own
+    intro e he v1 ac1 hv1 hac1
+    rw [hreg] at he
+    by_cases ho : e.2 = o
+    · rw [ho, hso'] at hv1; cases hv1; simp only at hac1; rw [hvacc] at hac1; cases hac1
+    · rw [hso _ ho] at hv1; exact h.reg_own e he v1 ac1 hv1 hac1
+  · -- bound_reg
+    intro o' v1 hv1 hch1
+    show v1.bound = {} ∨ n'.reg.tcp.lookup v1.bound = some o'
+    rw [hreg]
     by_cases ho : o' = o
-    · subst ho; rw [hso'] at hv1; cases hv1; exact h.o_acc o' v hne hv
-    · rw [hso o' ho] at hv1; exact h.o_acc o' v1 hne hv1
-  · show 0 < n'.fwds.length; rw [hfw]; exact h.fwd0
+    · subst ho; rw [hso'] at hv1; cases hv1; cases hch1
+    · rw [hso o' ho] at hv1; exact h.bound_reg o' v1 hv1 hch1
   · show (s.dialLog ++ [_]).length = n'.chans.length; rw [hcl, List.length_append, hdlen]; rfl
   · -- chan_ok
     intro d cv dd hc hd
-    show _ ∧ _ ∧ _ ∧ _ ∧ _ ∧ _ ∧ cv.vis0 = natView s.natLog d cv.ep0 ∧ ∃ f0, dd.fwd = some f0 ∧ f0 < n'.fwds.length ∧ f0 ≠ 0
-        ∧ cv.hops0 = route0 n'.cfg aep cv ++ [fwdHop f0]
+    show _ ∧ _ ∧ _ ∧ _ ∧ _ ∧ _ ∧ cv.vis0 = natView s.natLog d cv.ep0 ∧ dd.epoch < n'.fwds.length
+        ∧ ∃ f0, dd.fwd = some f0 ∧ f0 < n'.fwds.length ∧ f0 ≠ dd.epoch ∧ cv.hops0 = route0 n'.cfg cv ++ [fwdHop f0]
     rw [hcfg, hfw]
     by_cases hdl : d = s.net.chans.length
     · subst hdl
       rw [hcv, if_pos rfl] at hc; cases hc
-      have hz : s.net.chans.length - s.dialLog.length = 0 := by omega
       rw [List.getElem?_append_right (by omega), hz] at hd
       simp at hd; subst hd
-      refine ⟨rfl, rfl, rfl, rfl, rfl, hvba, ?_, f, hf, hfl, hf0, ?_⟩
+      refine ⟨rfl, rfl, rfl, rfl, hvba, htd, ?_, hfal, f0, hf, hfl, hf0, ?_⟩
       · simp only [natView]
         have : s.natLog.filter (fun x => x.1 == s.net.chans.length) = [] := by
           rw [List.filter_eq_nil_iff]
@@ -908,44 +1329,56 @@ theorem HInv.dial {a : String} {aep : Ep} {s : HS} (h : HInv a aep s) (o : Strin
       · simp [route0, NetSt.incomingRoute, hf]
     · exact h.chan_ok d cv dd (hcvnew d cv hc hdl) (hdold d dd hdl hd)
   · -- hops1_q
-    intro d cv hc hq
-    show cv.hops1 = route1 n'.cfg aep cv ++ [fwdHop 0]
+    intro d cv dd hc hd hq
+    show cv.hops1 = route1 n'.cfg cv ++ [fwdHop dd.epoch]
     rw [hcfg]
     by_cases hdl : d = s.net.chans.length
     · subst hdl
       rw [hcv, if_pos rfl] at hc; cases hc
+      rw [List.getElem?_append_right (by omega), hz] at hd
+      simp at hd; subst hd
       simp [route1, NetSt.incomingRoute]
-    · exact h.hops1_q d cv (hcvnew d cv hc hdl) hq
+    · exact h.hops1_q d cv dd (hcvnew d cv hc hdl) (hdold d dd hdl hd) hq
   · -- hops1_a
     intro d cv e hc he hec
-    show ∃ g, e.fwd = some g ∧ cv.hops1 = route1 n'.cfg aep cv ++ [fwdHop g]
+    show ∃ g, e.fwd = some g ∧ cv.hops1 = route1 n'.cfg cv ++ [fwdHop g]
     rw [hcfg]
     have hdl : d ≠ s.net.chans.length := by intro hdl; rw [hdl] at hec; exact hnocid e he hec
     exact h.hops1_a d cv e (hcvnew d cv hc hdl) he hec
+  · -- d_acc
+    intro d hd a1 va1 hva1 hvf1
+    have hva1' : ∃ v1, s.net.sv a1 = some v1 ∧ v1.fwd = va1.fwd ∧ v1.bound = va1.bound ∧ v1.acc = va1.acc := by
+      by_cases ho : a1 = o
+      · subst ho; rw [hso'] at hva1; cases hva1; exact ⟨v, hv, rfl, rfl, rfl⟩
+      · rw [hso a1 ho] at hva1; exact ⟨va1, hva1, rfl, rfl, rfl⟩
+    obtain ⟨v1, hv1, e1, e2, e3⟩ := hva1'
+    rw [← e1] at hvf1; rw [← e2, ← e3]
+    rcases List.mem_append.mp hd with hd1 | hd1
+    · exact h.d_acc d hd1 a1 v1 hv1 hvf1
+    · rw [List.mem_singleton] at hd1; subst hd1
+      simp only at hvf1 ⊢
+      have := (h.s_fwd a1 v1 f hv1 hvf1).2
+      rw [hvt] at this
+      have ha1 : a1 = a := (Option.some.inj this).symm
+      subst ha1
+      rw [hva] at hv1; cases hv1
+      exact ⟨rfl, hvb, by rw [hac]; rfl⟩
   · -- idle
-    intro o' v1 hne hv1 hch1
+    intro o' v1 hv1 hch1
     by_cases ho : o' = o
     · subst ho; rw [hso'] at hv1; cases hv1; cases hch1
-    · rw [hso o' ho] at hv1; exact h.idle o' v1 hne hv1 hch1
-  · -- idle_b
-    intro o' v1 va1 hne hv1 hva1 hop1 hch1
-    rw [hsa] at hva1
-    by_cases ho : o' = o
-    · subst ho; rw [hso'] at hv1; cases hv1; cases hch1
-    · rw [hso o' ho] at hv1; exact h.idle_b o' v1 va1 hne hv1 hva1 hop1 hch1
+    · rw [hso o' ho] at hv1; exact h.idle o' v1 hv1 hch1
   · -- conn
-    intro o' v1 c hne hv1 hch1
+    intro o' v1 c hv1 hch1
     by_cases ho : o' = o
     · subst ho; rw [hso'] at hv1; cases hv1
       simp only [Option.some.injEq] at hch1; subst hch1
-      have hz : s.net.chans.length - s.dialLog.length = 0 := by omega
-      refine ⟨_, ⟨s.net.chans.length, o', aep, v.bound, v.fwd⟩, by rw [hcv, if_pos rfl], ?_, Or.inl ⟨rfl, rfl, rfl⟩⟩
+      refine ⟨_, ⟨s.net.chans.length, o', target, v.bound, v.fwd, a, f⟩, by rw [hcv, if_pos rfl], ?_, Or.inl ⟨rfl, rfl, rfl⟩⟩
       show (s.dialLog ++ [_])[s.net.chans.length]? = _
       rw [List.getElem?_append_right (by omega), hz]; rfl
     · rw [hso o' ho] at hv1
-      obtain ⟨cv, d, q1, q2, q3⟩ := h.conn o' v1 c hne hv1 hch1
-      have hlt := cv_lt q1
-      exact ⟨cv, d, hcvold c cv q1, by rw [List.getElem?_append_left (by omega)]; exact q2, q3⟩
+      obtain ⟨cv, d, q1, q2, q3⟩ := h.conn o' v1 c hv1 hch1
+      exact ⟨cv, d, hcvold c cv q1, hdkeep c d q2, q3⟩
   · -- s_fwd
     intro o' v1 f1 hv1 hf1
     show f1 < n'.fwds.length ∧ n'.fwdTarget f1 = some o'
@@ -974,8 +1407,13 @@ theorem HInv.dial {a : String} {aep : Ep} {s : HS} (h : HInv a aep s) (o : Strin
       by_cases ho : o' = o
       · subst ho; rw [hso'] at hv1; cases hv1; rfl
       · rw [hso o' ho] at hv1
-        have := (h.s_fwd o' v1 f hv1 hf1).2
+        have := (h.s_fwd o' v1 f0 hv1 hf1).2
         rw [hftg] at this; exact absurd (Option.some.inj this).symm ho
+  · -- o_fwd
+    intro o' v1 hv1 hop1
+    by_cases ho : o' = o
+    · subst ho; rw [hso'] at hv1; cases hv1; exact h.o_fwd o' v hv hop1
+    · rw [hso o' ho] at hv1; exact h.o_fwd o' v1 hv1 hop1
   · -- b_syn
     intro pk hpk hty
     rcases List.mem_append.mp hpk with hpk | hpk
@@ -983,7 +1421,9 @@ theorem HInv.dial {a : String} {aep : Ep} {s : HS} (h : HInv a aep s) (o : Strin
       exact ⟨c, cv, q1, hcvold c cv q2, q3, q4⟩
     · rw [List.mem_singleton] at hpk; subst hpk
       refine ⟨_, _, hsyn.2.1, by rw [hcv, if_pos rfl], ?_, hsyn.2.2⟩
-      intro hin; have := h.syn_lt _ hin; omega
+      intro hin
+      obtain ⟨x, hx, hx2⟩ := List.mem_map.mp hin
+      have := (h.syn_lt x hx).1; omega
   · -- b_syn1
     show (s.bag ++ [syn]).Pairwise _
     rw [List.pairwise_append]
@@ -1001,25 +1441,39 @@ theorem HInv.dial {a : String} {aep : Ep} {s : HS} (h : HInv a aep s) (o : Strin
       exact ⟨c, cv, q1, hcvold c cv q2, q3, q4⟩
     · rw [List.mem_singleton] at hpk; subst hpk
       rw [hsyn.1] at hty; cases hty
-  · intro c hc; show c < n'.chans.length; rw [hcl]; have := h.syn_lt c hc; omega
+  · -- syn_lt
+    intro x hx
+    obtain ⟨r1, r2⟩ := h.syn_lt x hx
+    exact ⟨by show x.2 < n'.chans.length; rw [hcl]; omega, by show x.1 < n'.fwds.length; rw [hfw]; exact r2⟩
   · exact h.syn_nd
-  · intro va1 ac1 hva1 hac1; rw [hsa] at hva1; exact h.fifo va1 ac1 hva1 hac1
+  · -- syn_ep
+    intro x hx d hd
+    have := (h.syn_lt x hx).1
+    exact h.syn_ep x hx d (hdold x.2 d (by omega) hd)
+  · -- fifo
+    intro a1 va1 ac1 f1 hva1 hac1 hvf1
+    by_cases ho : a1 = o
+    · subst ho; rw [hso'] at hva1; cases hva1; simp only at hac1; rw [hvacc] at hac1; cases hac1
+    · rw [hso a1 ho] at hva1; exact h.fifo a1 va1 ac1 f1 hva1 hac1 hvf1
+  · exact h.fifo_all
   · -- a_log
     intro e he
-    obtain ⟨op, c, g, q1, q2, q3, q4, q5, q6, q7, q8, q9⟩ := h.a_log e he
-    refine ⟨op, c, g, q1, q2, q3, q4, by show g < n'.fwds.length; omega, q6, q7, q8, ?_⟩
+    obtain ⟨op, c, g, d, r1, r2, r3, r4, r5, r6, r7, r8, r9, r10, r11, r12, r13⟩ := h.a_log e he
+    refine ⟨op, c, g, d, r1, r2, r3, r4, by show g < n'.fwds.length; omega, by show e.epoch < n'.fwds.length; omega,
+      r7, r8, hdkeep c d r9, r10, r11, r12, ?_⟩
     intro cv hc
-    have hne : c ≠ s.net.chans.length := by intro hcc; rw [hcc] at q2; exact hnocid e he q2
-    exact q9 cv (hcvnew c cv hc hne)
+    have hne : c ≠ s.net.chans.length := by intro hcc; rw [hcc] at r2; exact hnocid e he r2
+    exact r13 cv (hcvnew c cv hc hne)
   · -- pend
-    intro va1 ac1 op hva1 hac1 hop
-    rw [hsa] at hva1
-    obtain ⟨q1, q2, q3, q4⟩ := h.pend va1 ac1 op hva1 hac1 hop
-    refine ⟨q1, ?_, q3, q4⟩
-    show (n'.sv op.peer).isSome = true
-    rw [hsv]; split
-    · rfl
-    · exact q2
+    intro a1 va1 ac1 op hva1 hac1 hop
+    by_cases ho : a1 = o
+    · subst ho; rw [hso'] at hva1; cases hva1; simp only at hac1; rw [hvacc] at hac1; cases hac1
+    · rw [hso a1 ho] at hva1
+      obtain ⟨⟨vp, hvp, hvpa⟩, r2, r3⟩ := h.pend a1 va1 ac1 op hva1 hac1 hop
+      refine ⟨?_, r2, r3⟩
+      by_cases hp : op.peer = o
+      · exact ⟨{ v with chan := some s.net.chans.length, connectH := some hh }, by rw [hp]; exact hso', hvacc⟩
+      · exact ⟨vp, by rw [hso _ hp]; exact hvp, hvpa⟩
   · exact h.ser_lt
   · exact h.ser_mono
   · -- peer_b
@@ -1032,27 +1486,36 @@ theorem HInv.dial {a : String} {aep : Ep} {s : HS} (h : HInv a aep s) (o : Strin
   · -- con_ok
     intro k hk
     obtain ⟨c, d, q1, q2, q3, q4⟩ := h.con_ok k hk
-    have : c < s.dialLog.length := (List.getElem?_eq_some_iff.mp q2).1
-    exact ⟨c, d, q1, by show (s.dialLog ++ [_])[c]? = some d; rw [List.getElem?_append_left this]; exact q2, q3, q4⟩
-  · -- o_fwd
-    intro o' v1 hv1 hop1
+    exact ⟨c, d, q1, hdkeep c d q2, q3, q4⟩
+  · exact h.con_nd
+  · -- con_pend
+    intro o' v1 c hv1 hch1 hpe k hk
     by_cases ho : o' = o
-    · subst ho; rw [hso'] at hv1; cases hv1; exact h.o_fwd o' v hv hop1
-    · rw [hso o' ho] at hv1; exact h.o_fwd o' v1 hv1 hop1
+    · subst ho; rw [hso'] at hv1; cases hv1
+      simp only [Option.some.injEq] at hch1; subst hch1
+      obtain ⟨c', d, q1, q2, _⟩ := h.con_ok k hk
+      have : c' < s.dialLog.length := (List.getElem?_eq_some_iff.mp q2).1
+      rw [q1]; intro hcc; cases hcc; omega
+    · rw [hso o' ho] at hv1; exact h.con_pend o' v1 c hv1 hch1 hpe k hk
   · intro x hx; show x.1 < n'.chans.length; rw [hcl]; have := h.nat_lt x hx; omega
+  · exact hnp
+  · intro e he; rw [hreg] at he; exact h.reg_nodef e he
+  · exact h.acc_nd
 
-/-- **`acceptor::close`**: unregistered, forwarder detached, the accept aborted, the queue reset. -/
-theorem HInv.closeAcc {a : String} {aep : Ep} {s : HS} (h : HInv a aep s)
+/-- **`acceptor::close`**: unregistered, forwarder detached (the listening epoch is over), the
+    accept aborted, the queue reset. -/
+theorem HInv.closeAcc {s : HS} (h : HInv s) (a : String)
     (va : SockV) (ac : AccState) (hva : s.net.sv a = some va) (hac : va.acc = some ac)
     (n' : NetSt) (fw : List Pkt)
     (hcfg : n'.cfg = s.net.cfg) (hfw : n'.fwds.length = s.net.fwds.length)
     (hcl : n'.chans.length = s.net.chans.length)
     (hreg : n'.reg.tcp = (if va.bound.isDefault then s.net.reg.tcp else simUnbind s.net.reg.tcp a va.bound))
+    (hnp : 0 < n'.reg.nextPort)
     (hsv : ∀ o, n'.sv o = if o = a then some ⟨false, {}, none, none, none, some { ac with queueLimit := -1, conns := [], acceptOp := none }⟩ else s.net.sv o)
     (hcv : ∀ c, n'.cv c = s.net.cv c)
     (hft : ∀ g, n'.fwdTarget g = if va.fwd = some g then none else s.net.fwdTarget g)
     (hfwd : ∀ q ∈ fw, q.ty = .err) :
-    HInv a aep { s with net := n', bag := s.bag ++ fw } := by
+    HInv { s with net := n', bag := s.bag ++ fw } := by
   have hsa : n'.sv a = some ⟨false, {}, none, none, none, some { ac with queueLimit := -1, conns := [], acceptOp := none }⟩ := by
     rw [hsv, if_pos rfl]
   have hso : ∀ o, o ≠ a → n'.sv o = s.net.sv o := fun o ho => by rw [hsv, if_neg ho]
@@ -1061,55 +1524,91 @@ theorem HInv.closeAcc {a : String} {aep : Ep} {s : HS} (h : HInv a aep s)
     have h1 := (h.s_fwd o v f hv hf).2
     have h2 := (h.s_fwd a va f hva hvf).2
     rw [h1] at h2; exact ho (Option.some.inj h2)
+  obtain ⟨hregm, hregl⟩ := reg_after_unbind hreg
   constructor
-  · exact ⟨_, _, hsa, rfl, rfl⟩
-  · intro va1 hva1 hop1; rw [hsa] at hva1; cases hva1; cases hop1
-  · intro va1 ac1 hva1 hac1 _
-    rw [hsa] at hva1; cases hva1
-    simp only [Option.some.injEq] at hac1; subst hac1
-    refine ⟨by show (-1 : Int) ≤ 0; omega, ?_, rfl⟩
-    rw [hft]
-    split
-    · rfl
-    · cases hvo : va.isOpen with
-      | true =>
-        rename_i hn
-        exact absurd (h.a_open va hva hvo).2.1 hn
-      | false => exact (h.a_closed va ac hva hac hvo).2.1
-  · intro e he hea
-    rw [hreg] at he
-    split at he
-    · exact h.reg_a e he hea
-    · exact h.reg_a e (mem_simUnbind he) hea
-  · intro o v hne hv; rw [hso o hne] at hv; exact h.o_acc o v hne hv
-  · show 0 < n'.fwds.length; rw [hfw]; exact h.fwd0
+  · -- a_chan
+    intro a1 va1 ac1 hva1 hac1
+    by_cases ho : a1 = a
+    · subst ho; rw [hsa] at hva1; cases hva1; rfl
+    · rw [hso a1 ho] at hva1; exact h.a_chan a1 va1 ac1 hva1 hac1
+  · -- a_closed
+    intro a1 va1 ac1 hva1 hac1 hcl1
+    by_cases ho : a1 = a
+    · subst ho; rw [hsa] at hva1; cases hva1
+      simp only [Option.some.injEq] at hac1; subst hac1
+      exact ⟨by show (-1 : Int) ≤ 0; omega, rfl⟩
+    · rw [hso a1 ho] at hva1; exact h.a_closed a1 va1 ac1 hva1 hac1 hcl1
+  · -- a_lis
+    intro a1 va1 ac1 hva1 hac1 hq1
+    by_cases ho : a1 = a
+    · subst ho; rw [hsa] at hva1; cases hva1
+      simp only [Option.some.injEq] at hac1; subst hac1
+      simp only at hq1; omega
+    · rw [hso a1 ho] at hva1; exact h.a_lis a1 va1 ac1 hva1 hac1 hq1
+  · -- reg_own
+    intro e he v ac1 hv hac1
+    by_cases ho : e.2 = a
+    · rw [ho, hsa] at hv; cases hv
+      have hb := h.reg_own e (hregm e he) va ac (by rw [ho]; exact hva) hac
+      show ({} : Ep) = e.1
+      rw [hreg] at he
+      split at he
+      · rename_i hd; rw [← hb]
+        have : va.bound = {} := by
+          cases hvb : va.bound with
+          | mk ad po => rw [hvb] at hd; simp [Ep.isDefault] at hd; rw [hd.1, hd.2]
+        exact this.symm
+      · exact absurd ⟨hb.symm, ho⟩ (mem_simUnbind_ne he)
+    · rw [hso _ ho] at hv; exact h.reg_own e (hregm e he) v ac1 hv hac1
+  · -- bound_reg
+    intro o v hv hch
+    by_cases ho : o = a
+    · subst ho; rw [hsa] at hv; cases hv; exact Or.inl rfl
+    · rw [hso o ho] at hv
+      rcases h.bound_reg o v hv hch with hb | hb
+      · exact Or.inl hb
+      · exact Or.inr (hregl _ _ ho hb)
   · show s.dialLog.length = n'.chans.length; rw [hcl]; exact h.dial_len
   · intro c cv d hc hd
     simp only [hcv] at hc
-    obtain ⟨q1, q2, q3, q4, q5, q6, q7, f0, r1, r2, r3, r4⟩ := h.chan_ok c cv d hc hd
-    refine ⟨q1, q2, q3, q4, q5, q6, q7, f0, r1, by show f0 < n'.fwds.length; omega, r3, ?_⟩
-    show cv.hops0 = route0 n'.cfg aep cv ++ [fwdHop f0]
+    obtain ⟨q1, q2, q3, q4, q5, q6, q7, q8, f0, r1, r2, r3, r4⟩ := h.chan_ok c cv d hc hd
+    refine ⟨q1, q2, q3, q4, q5, q6, q7, by show d.epoch < n'.fwds.length; omega, f0, r1,
+      by show f0 < n'.fwds.length; omega, r3, ?_⟩
+    show cv.hops0 = route0 n'.cfg cv ++ [fwdHop f0]
     rw [hcfg]; exact r4
-  · intro c cv hc hq
+  · intro c cv d hc hd hq
     simp only [hcv] at hc
-    show cv.hops1 = route1 n'.cfg aep cv ++ [fwdHop 0]
-    rw [hcfg]; exact h.hops1_q c cv hc hq
+    show cv.hops1 = route1 n'.cfg cv ++ [fwdHop d.epoch]
+    rw [hcfg]; exact h.hops1_q c cv d hc hd hq
   · intro c cv e hc he hec
     simp only [hcv] at hc
-    show ∃ g, e.fwd = some g ∧ cv.hops1 = route1 n'.cfg aep cv ++ [fwdHop g]
+    show ∃ g, e.fwd = some g ∧ cv.hops1 = route1 n'.cfg cv ++ [fwdHop g]
     rw [hcfg]; exact h.hops1_a c cv e hc he hec
-  · intro o v hne hv hch; rw [hso o hne] at hv; exact h.idle o v hne hv hch
-  · intro o v va1 _ _ hva1 hop1; rw [hsa] at hva1; cases hva1; cases hop1
-  · intro o v c hne hv hch
-    rw [hso o hne] at hv; simp only [hcv]; exact h.conn o v c hne hv hch
-  · intro o v f hv hf
+  · -- d_acc
+    intro d hd a1 va1 hva1 hvf1
+    by_cases ho : a1 = a
+    · subst ho; rw [hsa] at hva1; cases hva1; cases hvf1
+    · rw [hso a1 ho] at hva1; exact h.d_acc d hd a1 va1 hva1 hvf1
+  · -- idle
+    intro o v hv hch
+    by_cases ho : o = a
+    · subst ho; rw [hsa] at hv; cases hv; rfl
+    · rw [hso o ho] at hv; exact h.idle o v hv hch
+  · -- conn
+    intro o v c hv hch
+    by_cases ho : o = a
+    · subst ho; rw [hsa] at hv; cases hv; cases hch
+    · rw [hso o ho] at hv; simp only [hcv]; exact h.conn o v c hv hch
+  · -- s_fwd
+    intro o v f hv hf
     show f < n'.fwds.length ∧ n'.fwdTarget f = some o
     by_cases ho : o = a
     · subst ho; rw [hsa] at hv; cases hv; cases hf
     · rw [hso o ho] at hv
       rw [hfw, hft, if_neg (hother o v f ho hv hf)]
       exact h.s_fwd o v f hv hf
-  · intro f o hfo
+  · -- f_own
+    intro f o hfo
     rw [hft] at hfo
     split at hfo
     · cases hfo
@@ -1118,10 +1617,16 @@ theorem HInv.closeAcc {a : String} {aep : Ep} {s : HS} (h : HInv a aep s)
       by_cases ho : o = a
       · subst ho; rw [hva] at q1; cases q1; exact absurd q2 hn
       · exact ⟨v, by rw [hso o ho]; exact q1, q2⟩
-  · intro d hd o v f hv hf hdf
+  · -- d_live
+    intro d hd o v f hv hf hdf
     by_cases ho : o = a
     · subst ho; rw [hsa] at hv; cases hv; cases hf
     · rw [hso o ho] at hv; exact h.d_live d hd o v f hv hf hdf
+  · -- o_fwd
+    intro o v hv hop
+    by_cases ho : o = a
+    · subst ho; rw [hsa] at hv; cases hv; cases hop
+    · rw [hso o ho] at hv; exact h.o_fwd o v hv hop
   · intro pk hpk hty
     simp only [hcv]
     rcases List.mem_append.mp hpk with hpk | hpk
@@ -1139,39 +1644,58 @@ theorem HInv.closeAcc {a : String} {aep : Ep} {s : HS} (h : HInv a aep s)
     rcases List.mem_append.mp hpk with hpk | hpk
     · exact h.b_ack pk hpk hty
     · rw [hfwd pk hpk] at hty; cases hty
-  · intro c hc; show c < n'.chans.length; rw [hcl]; exact h.syn_lt c hc
+  · -- syn_lt
+    intro x hx
+    obtain ⟨r1, r2⟩ := h.syn_lt x hx
+    exact ⟨by show x.2 < n'.chans.length; rw [hcl]; exact r1, by show x.1 < n'.fwds.length; rw [hfw]; exact r2⟩
   · exact h.syn_nd
-  · intro va1 ac1 hva1 hac1
-    rw [hsa] at hva1; cases hva1
-    simp only [Option.some.injEq] at hac1; subst hac1
-    obtain ⟨dropped, q1, _⟩ := h.fifo va ac hva hac
-    exact ⟨dropped ++ ac.conns, by simp [q1], fun hh => by cases hh⟩
+  · exact h.syn_ep
+  · -- fifo
+    intro a1 va1 ac1 f hva1 hac1 hvf1
+    by_cases ho : a1 = a
+    · subst ho; rw [hsa] at hva1; cases hva1; cases hvf1
+    · rw [hso a1 ho] at hva1; exact h.fifo a1 va1 ac1 f hva1 hac1 hvf1
+  · exact h.fifo_all
   · intro e he
-    obtain ⟨op, c, g, q1, q2, q3, q4, q5, q6, q7, q8, q9⟩ := h.a_log e he
-    refine ⟨op, c, g, q1, q2, q3, q4, by show g < n'.fwds.length; omega, q6, q7, q8, ?_⟩
-    intro cv hc; simp only [hcv] at hc; exact q9 cv hc
-  · intro va1 ac1 op hva1 hac1 hop
-    rw [hsa] at hva1; cases hva1
-    simp only [Option.some.injEq] at hac1; subst hac1
-    cases hop
+    obtain ⟨op, c, g, d, r1, r2, r3, r4, r5, r6, r7, r8, r9, r10, r11, r12, r13⟩ := h.a_log e he
+    refine ⟨op, c, g, d, r1, r2, r3, r4, by show g < n'.fwds.length; omega, by show e.epoch < n'.fwds.length; omega,
+      r7, r8, r9, r10, r11, r12, ?_⟩
+    intro cv hc; simp only [hcv] at hc; exact r13 cv hc
+  · -- pend
+    intro a1 va1 ac1 op hva1 hac1 hop
+    by_cases ho : a1 = a
+    · subst ho; rw [hsa] at hva1; cases hva1
+      simp only [Option.some.injEq] at hac1; subst hac1
+      cases hop
+    · rw [hso a1 ho] at hva1
+      obtain ⟨⟨vp, hvp, hvpa⟩, r2, r3⟩ := h.pend a1 va1 ac1 op hva1 hac1 hop
+      have hpa : op.peer ≠ a := by
+        intro hh; rw [hh, hva] at hvp; cases hvp; rw [hac] at hvpa; cases hvpa
+      exact ⟨⟨vp, by rw [hso _ hpa]; exact hvp, hvpa⟩, r2, r3⟩
   · exact h.ser_lt
   · exact h.ser_mono
-  · intro e he op c v heo hec hv hch
-    obtain ⟨op', _, _, q1, _, _, _, _, _, _, q8, _⟩ := h.a_log e he
-    rw [heo] at q1; cases q1
-    rw [hso _ q8] at hv; exact h.peer_b e he op c v heo hec hv hch
+  · -- peer_b
+    intro e he op c v heo hec hv hch
+    by_cases ho : op.peer = a
+    · rw [ho, hsa] at hv; cases hv; cases hch
+    · rw [hso _ ho] at hv; exact h.peer_b e he op c v heo hec hv hch
   · exact h.con_ok
-  · intro o v hv hop
+  · exact h.con_nd
+  · -- con_pend
+    intro o v c hv hch hpe
     by_cases ho : o = a
-    · subst ho; rw [hsa] at hv; cases hv; cases hop
-    · rw [hso o ho] at hv; exact h.o_fwd o v hv hop
+    · subst ho; rw [hsa] at hv; cases hv; cases hch
+    · rw [hso o ho] at hv; exact h.con_pend o v c hv hch hpe
   · intro x hx; show x.1 < n'.chans.length; rw [hcl]; exact h.nat_lt x hx
+  · exact hnp
+  · intro e he; exact h.reg_nodef e (hregm e he)
+  · exact h.acc_nd
 
 /-- a packet in flight is replaced by one with the same type, channel and route (a NAT hop
     rewrote its source) -/
-theorem HInv.bagSet {a : String} {aep : Ep} {s : HS} (h : HInv a aep s) (i : Nat) (pk pk' : Pkt)
+theorem HInv.bagSet {s : HS} (h : HInv s) (i : Nat) (pk pk' : Pkt)
     (hi : s.bag[i]? = some pk) (hty : pk'.ty = pk.ty) (hch : pk'.chan = pk.chan) (hh : pk'.hops = pk.hops) :
-    HInv a aep { s with bag := s.bag.set i pk' } := by
+    HInv { s with bag := s.bag.set i pk' } := by
   have hmem : ∀ q ∈ s.bag.set i pk', q ∈ s.bag ∨ q = pk' := by
     intro q hq
     rcases List.mem_or_eq_of_mem_set hq with h1 | h1
@@ -1190,9 +1714,9 @@ theorem HInv.bagSet {a : String} {aep : Ep} {s : HS} (h : HInv a aep s) (i : Nat
       simp only [List.length_map, hlt, if_true, List.getElem?_map, hi, Option.map_some, hty, hch]
     · rfl
   exact {
-    a_ex := h.a_ex, a_open := h.a_open, a_closed := h.a_closed, reg_a := h.reg_a, o_acc := h.o_acc, fwd0 := h.fwd0,
-    dial_len := h.dial_len, chan_ok := h.chan_ok, hops1_q := h.hops1_q, hops1_a := h.hops1_a, idle := h.idle,
-    idle_b := h.idle_b, conn := h.conn, s_fwd := h.s_fwd, f_own := h.f_own, d_live := h.d_live,
+    a_chan := h.a_chan, a_closed := h.a_closed, a_lis := h.a_lis, reg_own := h.reg_own, bound_reg := h.bound_reg,
+    dial_len := h.dial_len, chan_ok := h.chan_ok, hops1_q := h.hops1_q, hops1_a := h.hops1_a, d_acc := h.d_acc,
+    idle := h.idle, conn := h.conn, s_fwd := h.s_fwd, f_own := h.f_own, d_live := h.d_live, o_fwd := h.o_fwd,
     b_syn := by
       intro q hq hqt
       rcases hmem q hq with h1 | h1
@@ -1210,8 +1734,10 @@ theorem HInv.bagSet {a : String} {aep : Ep} {s : HS} (h : HInv a aep s) (i : Nat
       rcases hmem q hq with h1 | h1
       · exact h.b_ack q h1 hqt
       · subst h1; rw [hty] at hqt; rw [hch, hh]; exact h.b_ack pk hpk hqt
-    syn_lt := h.syn_lt, syn_nd := h.syn_nd, fifo := h.fifo, a_log := h.a_log, pend := h.pend, ser_lt := h.ser_lt,
-    ser_mono := h.ser_mono, peer_b := h.peer_b, con_ok := h.con_ok, o_fwd := h.o_fwd, nat_lt := h.nat_lt }
+    syn_lt := h.syn_lt, syn_nd := h.syn_nd, syn_ep := h.syn_ep, fifo := h.fifo, fifo_all := h.fifo_all,
+    a_log := h.a_log, pend := h.pend, ser_lt := h.ser_lt, ser_mono := h.ser_mono, peer_b := h.peer_b,
+    con_ok := h.con_ok, con_nd := h.con_nd, con_pend := h.con_pend, nat_lt := h.nat_lt,
+    np_pos := h.np_pos, reg_nodef := h.reg_nodef, acc_nd := h.acc_nd }
 
 theorem natView_append_same (log : List (Nat × String)) (c : Nat) (ext : String) (e : Ep) :
     natView (log ++ [(c, ext)]) c e = { e with addr := ext } := by
@@ -1227,14 +1753,14 @@ theorem natView_port (log : List (Nat × String)) (c : Nat) (e : Ep) : (natView 
 
 /-- the SYN of channel `c`, still in flight, crosses a NAT hop: side 0's visible address is
     rewritten -/
-theorem HInv.visRw {a : String} {aep : Ep} {s : HS} (h : HInv a aep s) (c : Nat) (ext : String) (cv0 : ChanV)
-    (hc0 : s.net.cv c = some cv0) (hcs : c ∉ s.synLog)
+theorem HInv.visRw {s : HS} (h : HInv s) (c : Nat) (ext : String) (cv0 : ChanV)
+    (hc0 : s.net.cv c = some cv0) (hcs : c ∉ s.synLog.map (·.2))
     (n' : NetSt)
     (hcfg : n'.cfg = s.net.cfg) (hfw : n'.fwds.length = s.net.fwds.length)
-    (hcl : n'.chans.length = s.net.chans.length) (hreg : n'.reg.tcp = s.net.reg.tcp)
+    (hcl : n'.chans.length = s.net.chans.length) (hreg : n'.reg.tcp = s.net.reg.tcp) (hnp : 0 < n'.reg.nextPort)
     (hsv : ∀ o, n'.sv o = s.net.sv o) (hft : ∀ g, n'.fwdTarget g = s.net.fwdTarget g)
     (hcv : ∀ d, n'.cv d = if d = c then some { cv0 with vis0 := { cv0.vis0 with addr := ext } } else s.net.cv d) :
-    HInv a aep { s with net := n', natLog := s.natLog ++ [(c, ext)] } := by
+    HInv { s with net := n', natLog := s.natLog ++ [(c, ext)] } := by
   have hcvx : ∀ d cv, n'.cv d = some cv → ∃ cv1, s.net.cv d = some cv1 ∧ cv.ep0 = cv1.ep0 ∧ cv.ep1 = cv1.ep1
       ∧ cv.vis1 = cv1.vis1 ∧ cv.hops0 = cv1.hops0 ∧ cv.hops1 = cv1.hops1 ∧ (d ≠ c → cv = cv1)
       ∧ (d = c → cv.vis0 = { cv1.vis0 with addr := ext }) := by
@@ -1253,31 +1779,22 @@ theorem HInv.visRw {a : String} {aep : Ep} {s : HS} (h : HInv a aep s) (c : Nat)
     · rename_i hdc; subst hdc; rw [hc0] at hd; cases hd
       exact ⟨_, rfl, rfl, rfl, rfl, fun hn => absurd rfl hn⟩
     · exact ⟨cv1, hd, rfl, rfl, rfl, fun _ => rfl⟩
-  have hnotacc : ∀ e ∈ s.accLog, e.cid ≠ some c := by
-    intro e he hec
-    obtain ⟨va, ac, h1, h2, _⟩ := h.a_ex
-    obtain ⟨dropped, hf, _⟩ := h.fifo va ac h1 h2
-    apply hcs; rw [hf]
-    have : c ∈ s.accLog.filterMap (·.cid) := List.mem_filterMap.mpr ⟨e, he, hec⟩
-    simp [this]
+  have hnotacc : ∀ e ∈ s.accLog, e.cid ≠ some c := h.not_acc_of_not_syn c hcs
   constructor
-  · obtain ⟨va, ac, h1, h2, h3⟩ := h.a_ex; exact ⟨va, ac, by rw [hsv]; exact h1, h2, h3⟩
-  · intro va hva hop; rw [hsv] at hva
-    obtain ⟨q1, q2, q3, q4⟩ := h.a_open va hva hop
-    exact ⟨q1, q2, by rw [hft]; exact q3, by rw [hreg]; exact q4⟩
-  · intro va ac hva hac hcl'; rw [hsv] at hva
-    obtain ⟨q1, q2, q3⟩ := h.a_closed va ac hva hac hcl'
-    exact ⟨q1, by rw [hft]; exact q2, q3⟩
-  · intro e he; rw [hreg] at he; exact h.reg_a e he
-  · intro o v hne hv; rw [hsv] at hv; exact h.o_acc o v hne hv
-  · show 0 < n'.fwds.length; rw [hfw]; exact h.fwd0
+  · intro a va ac hva hac; rw [hsv] at hva; exact h.a_chan a va ac hva hac
+  · intro a va ac hva hac hcl'; rw [hsv] at hva; exact h.a_closed a va ac hva hac hcl'
+  · intro a va ac hva hac hq; rw [hsv] at hva; exact h.a_lis a va ac hva hac hq
+  · intro e he v ac hv hac; rw [hreg] at he; rw [hsv] at hv; exact h.reg_own e he v ac hv hac
+  · intro o v hv hch; rw [hsv] at hv
+    show v.bound = {} ∨ n'.reg.tcp.lookup v.bound = some o
+    rw [hreg]; exact h.bound_reg o v hv hch
   · show s.dialLog.length = n'.chans.length; rw [hcl]; exact h.dial_len
   · -- chan_ok
     intro d cv dd hc hd
     obtain ⟨cv1, hc1, e0, e1, e3, e4, _, e6, e7⟩ := hcvx d cv hc
-    obtain ⟨q1, q2, q3, q4, q5, q6, q7, f0, r1, r2, r3, r4⟩ := h.chan_ok d cv1 dd hc1 hd
-    refine ⟨q1, q2, by rw [e0]; exact q3, by rw [e1]; exact q4, by rw [e3]; exact q5, by rw [e0]; exact q6,
-      ?_, f0, r1, by show f0 < n'.fwds.length; omega, r3, ?_⟩
+    obtain ⟨q1, q2, q3, q4, q5, q6, q7, q8, f0, r1, r2, r3, r4⟩ := h.chan_ok d cv1 dd hc1 hd
+    refine ⟨q1, by rw [e0]; exact q2, by rw [e1]; exact q3, by rw [e3]; exact q4, by rw [e0]; exact q5, q6,
+      ?_, by show dd.epoch < n'.fwds.length; omega, f0, r1, by show f0 < n'.fwds.length; omega, r3, ?_⟩
     · show cv.vis0 = natView (s.natLog ++ [(c, ext)]) d cv.ep0
       by_cases hdc : d = c
       · subst hdc
@@ -1286,23 +1803,23 @@ theorem HInv.visRw {a : String} {aep : Ep} {s : HS} (h : HInv a aep s) (c : Nat)
         cases hnv : natView s.natLog d cv1.ep0 with
         | mk ad po => rw [hnv] at this; simp at this; simp [this]
       · rw [natView_append_other _ _ _ _ _ hdc, e6 hdc]; exact q7
-    · show cv.hops0 = route0 n'.cfg aep cv ++ [fwdHop f0]
-      rw [hcfg, e4, r4]; simp [route0, e0]
-  · intro d cv hc hq
-    obtain ⟨cv1, hc1, e0, _, _, _, e5, _⟩ := hcvx d cv hc
-    show cv.hops1 = route1 n'.cfg aep cv ++ [fwdHop 0]
-    rw [hcfg, e5, h.hops1_q d cv1 hc1 hq]; simp [route1, e0]
+    · show cv.hops0 = route0 n'.cfg cv ++ [fwdHop f0]
+      rw [hcfg, e4, r4]; simp [route0, e0, e1]
+  · intro d cv dd hc hd hq
+    obtain ⟨cv1, hc1, e0, e1, _, _, e5, _⟩ := hcvx d cv hc
+    show cv.hops1 = route1 n'.cfg cv ++ [fwdHop dd.epoch]
+    rw [hcfg, e5, h.hops1_q d cv1 dd hc1 hd hq]; simp [route1, e0, e1]
   · intro d cv e hc he hec
-    obtain ⟨cv1, hc1, e0, _, _, _, e5, _⟩ := hcvx d cv hc
+    obtain ⟨cv1, hc1, e0, e1, _, _, e5, _⟩ := hcvx d cv hc
     obtain ⟨g, q1, q2⟩ := h.hops1_a d cv1 e hc1 he hec
     refine ⟨g, q1, ?_⟩
-    show cv.hops1 = route1 n'.cfg aep cv ++ [fwdHop g]
-    rw [hcfg, e5, q2]; simp [route1, e0]
-  · intro o v hne hv hch; rw [hsv] at hv; exact h.idle o v hne hv hch
-  · intro o v va hne hv hva hop hch; rw [hsv] at hv hva; exact h.idle_b o v va hne hv hva hop hch
-  · intro o v c' hne hv hch
+    show cv.hops1 = route1 n'.cfg cv ++ [fwdHop g]
+    rw [hcfg, e5, q2]; simp [route1, e0, e1]
+  · intro d hd a va hva hvf; rw [hsv] at hva; exact h.d_acc d hd a va hva hvf
+  · intro o v hv hch; rw [hsv] at hv; exact h.idle o v hv hch
+  · intro o v c' hv hch
     rw [hsv] at hv
-    obtain ⟨cv1, d, q1, q2, q3⟩ := h.conn o v c' hne hv hch
+    obtain ⟨cv1, d, q1, q2, q3⟩ := h.conn o v c' hv hch
     obtain ⟨cv, hcvn, e0, _⟩ := hcvold c' cv1 q1
     refine ⟨cv, d, hcvn, q2, ?_⟩
     rcases q3 with ⟨r1, r2, r3⟩ | r
@@ -1315,6 +1832,7 @@ theorem HInv.visRw {a : String} {aep : Ep} {s : HS} (h : HInv a aep s) (c : Nat)
     obtain ⟨v, q1, q2⟩ := h.f_own f o hfo
     exact ⟨v, by rw [hsv]; exact q1, q2⟩
   · intro d hd o v f hv hf hdf; rw [hsv] at hv; exact h.d_live d hd o v f hv hf hdf
+  · intro o v hv hop; rw [hsv] at hv; exact h.o_fwd o v hv hop
   · intro pk hpk hty
     obtain ⟨c', cv1, q1, q2, q3, q4⟩ := h.b_syn pk hpk hty
     obtain ⟨cv, hcvn, _, _, e5, _⟩ := hcvold c' cv1 q2
@@ -1324,30 +1842,39 @@ theorem HInv.visRw {a : String} {aep : Ep} {s : HS} (h : HInv a aep s) (c : Nat)
     obtain ⟨c', cv1, q1, q2, q3, q4⟩ := h.b_ack pk hpk hty
     obtain ⟨cv, hcvn, _, e4, _⟩ := hcvold c' cv1 q2
     exact ⟨c', cv, q1, hcvn, by rw [e4]; exact q3, q4⟩
-  · intro c' hc'; show c' < n'.chans.length; rw [hcl]; exact h.syn_lt c' hc'
+  · intro x hx
+    obtain ⟨r1, r2⟩ := h.syn_lt x hx
+    exact ⟨by show x.2 < n'.chans.length; rw [hcl]; exact r1, by show x.1 < n'.fwds.length; rw [hfw]; exact r2⟩
   · exact h.syn_nd
-  · intro va ac hva hac; rw [hsv] at hva; exact h.fifo va ac hva hac
+  · exact h.syn_ep
+  · intro a va ac f hva hac hvf; rw [hsv] at hva; exact h.fifo a va ac f hva hac hvf
+  · exact h.fifo_all
   · intro e he
-    obtain ⟨op, c', g, q1, q2, q3, q4, q5, q6, q7, q8, q9⟩ := h.a_log e he
-    refine ⟨op, c', g, q1, q2, q3, q4, by show g < n'.fwds.length; omega, q6, q7, q8, ?_⟩
+    obtain ⟨op, c', g, d, r1, r2, r3, r4, r5, r6, r7, r8, r9, r10, r11, r12, r13⟩ := h.a_log e he
+    refine ⟨op, c', g, d, r1, r2, r3, r4, by show g < n'.fwds.length; omega, by show e.epoch < n'.fwds.length; omega,
+      r7, r8, r9, r10, r11, r12, ?_⟩
     intro cv hc
-    have hne : c' ≠ c := by intro hcc; rw [hcc] at q2; exact hnotacc e he q2
+    have hne : c' ≠ c := by intro hcc; rw [hcc] at r2; exact hnotacc e he r2
     obtain ⟨cv1, hc1, _, _, _, _, _, e6, _⟩ := hcvx c' cv hc
-    rw [e6 hne]; exact q9 cv1 hc1
-  · intro va ac op hva hac hop; rw [hsv] at hva
-    obtain ⟨q1, q2, q3, q4⟩ := h.pend va ac op hva hac hop
-    exact ⟨q1, by show (n'.sv op.peer).isSome = true; rw [hsv]; exact q2, q3, q4⟩
+    rw [e6 hne]; exact r13 cv1 hc1
+  · intro a va ac op hva hac hop; rw [hsv] at hva
+    obtain ⟨⟨vp, hvp, hvpa⟩, r2, r3⟩ := h.pend a va ac op hva hac hop
+    exact ⟨⟨vp, by rw [hsv]; exact hvp, hvpa⟩, r2, r3⟩
   · exact h.ser_lt
   · exact h.ser_mono
   · intro e he op c' v heo hec hv hch; rw [hsv] at hv; exact h.peer_b e he op c' v heo hec hv hch
   · exact h.con_ok
-  · intro o v hv hop; rw [hsv] at hv; exact h.o_fwd o v hv hop
+  · exact h.con_nd
+  · intro o v c' hv hch hpe; rw [hsv] at hv; exact h.con_pend o v c' hv hch hpe
   · intro x hx
     show x.1 < n'.chans.length
     rw [hcl]
     rcases List.mem_append.mp hx with hx | hx
     · exact h.nat_lt x hx
     · rw [List.mem_singleton] at hx; subst hx; exact cv_lt hc0
+  · exact hnp
+  · intro e he; rw [hreg] at he; exact h.reg_nodef e he
+  · exact h.acc_nd
 
 end Hs
 end SimVerif
